@@ -13,6 +13,10 @@ Part 2 — `Aggregate.__init__` as seen by attribute access (`construct_fieldVal
 import OfxModel.Ofx.Compose
 import OfxModel.Spec.Request
 import OfxModel.Ofx.Types
+import OfxProofs.Lemmas.ConvLawsWire
+import OfxProofs.Lemmas.ConstructValid
+import OfxProofs.Lemmas.WFBridge
+import OfxModel.Ofx.WF
 
 namespace Ofx.Compose
 open Ofx
@@ -551,6 +555,112 @@ theorem applyArgs_plain {c : Cls} (hp : c.elementList = false) {args items : Lis
     · simp only [Except.ok.injEq] at hm; exact hm.symm
     · simp at hm
 
+/-- `ClsFits` without the requirement that the class is a plain aggregate -/
+structure ClsFits0 (S : Schema) (name : String) (tbl : List (String × Shape)) (ci : Nat) (c : Cls) : Prop where
+  idx : S.findIdx? name.toList = some ci
+  cls : S.cls? ci = some c
+  nodup : ((specNoList c).map (·.name)).Nodup
+  attrs : ∀ k sh, (k, sh) ∈ tbl → ∃ a ∈ specNoList c, a.name = k.toList ∧ Shape.ofKind a.kind = some sh
+
+theorem ClsFits.to0 {S : Schema} {name : String} {tbl : List (String × Shape)} {ci : Nat} {c : Cls}
+    (h : ClsFits S name tbl ci c) : ClsFits0 S name tbl ci c := ⟨h.idx, h.cls, h.nodup, h.attrs⟩
+
+theorem kwFit_of0 {name : String} {tbl : List (String × Shape)} {ci : Nat} {c : Cls}
+    (hc : ClsFits0 S name tbl ci c) {k : String} {sh : Shape} (hm : (k, sh) ∈ tbl) {v : Node}
+    (hv : sh.fits Ptext v) : KwFit c Ptext (kv k v) := by
+  obtain ⟨a, ha, hn, hs⟩ := hc.attrs k sh hm
+  exact Or.inr ⟨a, ha, hn, sh, hs, hv⟩
+
+/-- the same for any class, `ElementList` included (the list members are whatever `_apply_args` made of `args`):
+    **what `Cls(*args, **kw)` holds**, read by attribute access: each attribute is the keyword of that name after a
+    faithful conversion (`None` when no keyword of that name was passed); the list members are `args` -/
+theorem mk_fields (hcv : ConvOK cv Ptext) {name : String} {tbl : List (String × Shape)} {ci : Nat} {c : Cls}
+    (hc : ClsFits0 S name tbl ci c) {args : List Node} {kw : List (Str × Node)} {n : Node}
+    (hkw : ∀ p ∈ kw, KwFit c Ptext p) (h : mk S cv name args kw = .ok n) :
+    ∃ fields items, n = .agg ci fields items ∧ applyArgs S cv c args = .ok items ∧ isCls S name n = true ∧
+      (∀ k : String, fieldVal n k = normNode (kwval kw k.toList)) ∧
+      (∀ keep : List String, (∀ p ∈ kw, p.2 = .val .none ∨ p.1 ∈ keep.map String.toList) →
+        othersNone keep n = true) := by
+  simp only [mk, hc.idx, construct, hc.cls, bind, Except.bind] at h
+  split at h
+  · simp at h
+  split at h
+  · simp at h
+  rename_i fields hfields
+  split at h
+  · simp at h
+  rename_i items hitems
+  split at h
+  · simp at h
+  simp only [pure, Except.pure, Except.ok.injEq] at h
+  subst h
+  -- the value stored for attribute `a`
+  have hstored : ∀ a ∈ specNoList c, ∀ r, setAttr S cv a (kwval kw a.name) = .ok r →
+      (r = none ∧ normNode (kwval kw a.name) = .val .none) ∨ r = some (normNode (kwval kw a.name)) := by
+    intro a ha r hr
+    cases hl : lookup a.name kw with
+    | none =>
+      have : kwval kw a.name = .val .none := by simp [kwval, hl]
+      rw [this] at hr ⊢
+      rcases setAttr_none hcv a r hr with rfl | rfl
+      · exact Or.inl ⟨rfl, rfl⟩
+      · exact Or.inr rfl
+    | some v =>
+      have hv : kwval kw a.name = v := by simp [kwval, hl]
+      rw [hv] at hr ⊢
+      rcases hkw _ (lookup_mem hl) with hnone | ⟨a', ha', hn', sh, hsh, hfit⟩
+      · simp only at hnone; subst hnone
+        rcases setAttr_none hcv a r hr with rfl | rfl
+        · exact Or.inl ⟨rfl, rfl⟩
+        · exact Or.inr rfl
+      · have : a' = a := nodup_map_inj (·.name) hc.nodup ha' ha hn'
+        subst this
+        exact Or.inr (setAttr_faithful hcv a' sh v r hsh hfit hr)
+  -- a keyword naming no attribute is `None`
+  have hnoattr : ∀ k : Str, (¬ ∃ a ∈ specNoList c, a.name = k) → kwval kw k = .val .none := by
+    intro k hno
+    cases hl : lookup k kw with
+    | none => simp [kwval, hl]
+    | some v =>
+      rcases hkw _ (lookup_mem hl) with hnone | ⟨a', ha', hn', _⟩
+      · simp only at hnone; simp [kwval, hl, hnone]
+      · exact absurd ⟨a', ha', hn'⟩ hno
+  refine ⟨fields, items, rfl, hitems, ?_, ?_, ?_⟩
+  · simp [isCls, Node.cls?, hc.idx]
+  · intro k
+    simp only [fieldVal, Node.fields, getField_eq_lookup]
+    by_cases hex : ∃ a ∈ specNoList c, a.name = k.toList
+    · obtain ⟨a, ha, hn⟩ := hex
+      obtain ⟨r, hr, hl⟩ := setAttrs_lookup (specNoList c) kw fields hfields hc.nodup a ha
+      rw [hn] at hl
+      rw [hl]
+      rcases hstored a ha r hr with ⟨rfl, hnone⟩ | rfl
+      · rw [← hn, hnone]
+      · simp [hn]
+    · rw [setAttrs_lookup_none (specNoList c) kw fields hfields k.toList (fun a ha hn => hex ⟨a, ha, hn⟩),
+        hnoattr _ hex]
+      rfl
+  · intro keep hkeep
+    simp only [othersNone, Node.fields, List.all_eq_true, Bool.or_eq_true, List.any_eq_true, beq_iff_eq]
+    intro p hp
+    obtain ⟨a, ha, hn, hs⟩ := setAttrs_mem (specNoList c) kw fields hfields p.1 p.2 hp
+    by_cases hin : p.1 ∈ keep.map String.toList
+    · obtain ⟨k, hk, hkk⟩ := List.mem_map.mp hin
+      exact Or.inl ⟨k, hk, hkk⟩
+    · right
+      have hnone : kwval kw p.1 = .val .none := by
+        cases hl : lookup p.1 kw with
+        | none => simp [kwval, hl]
+        | some v =>
+          rcases hkeep _ (lookup_mem hl) with h1 | h1
+          · simp only at h1; simp [kwval, hl, h1]
+          · exact absurd h1 hin
+      rw [← hn] at hs hnone
+      rcases hstored a ha _ hs with ⟨h1, _⟩ | h1
+      · simp at h1
+      · simp only [Option.some.injEq] at h1
+        rw [h1, hnone]; rfl
+
 /-- **what `Cls(*args, **kw)` holds**, read by attribute access: each attribute is the keyword of that name after a
     faithful conversion (`None` when no keyword of that name was passed); the list members are `args` -/
 theorem mk_spec (hcv : ConvOK cv Ptext) {name : String} {tbl : List (String × Shape)} {ci : Nat} {c : Cls}
@@ -696,6 +806,10 @@ abbrev tPROFRQ : List (String × Shape) :=
   [("clientrouting", .text), ("dtprofup", .date)]
 abbrev tPROFTRNRQ : List (String × Shape) :=
   [("trnuid", .text), ("profrq", .sub)]
+abbrev tTAXTRNRQ : List (String × Shape) :=
+  [("trnuid", .text), ("tax1099rq", .sub)]
+abbrev tTAXRQ : List (String × Shape) :=
+  [("acctnum", .text), ("recid", .text)]
 
 def reqTable : List (String × List (String × Shape)) :=
   [("FI", tFI),
@@ -726,7 +840,8 @@ def reqTable : List (String × List (String × Shape)) :=
    ("PROFRQ", tPROFRQ),
    ("PROFTRNRQ", tPROFTRNRQ),
    ("PROFMSGSRQV1", tMSGS),
-   ("TAX1099MSGSRQV1", tMSGS)]
+   ("TAX1099MSGSRQV1", tMSGS),
+   ("TAX1099TRNRQ", tTAXTRNRQ)]
 
 def clsFitsB (S : Schema) (name : String) (tbl : List (String × Shape)) : Bool :=
   match S.findIdx? name.toList with
@@ -948,8 +1063,8 @@ theorem inctran_spec (hS : ReqWF S = true) (hcv : ConvOK cv Ptext) (dtstart dten
 theorem trnrq_spec (hS : ReqWF S = true) (hcv : ConvOK cv Ptext) {name inner : String}
     {tbl : List (String × Shape)} (hm : (name, tbl) ∈ reqTable) (h1 : ("trnuid", Shape.text) ∈ tbl)
     (h2 : (inner, Shape.sub) ∈ tbl) (hne1 : inner ≠ "trnuid") {uuid : Str} (hu : Ptext uuid) (hne : uuid ≠ [])
-    {ci' : Nat} {f' : List (Str × Node)} {e : Exp} (he : e.ok S (.agg ci' f' []) = true) {w : Node}
-    (h : mk S cv name [] [kv "trnuid" (sv uuid), kv inner (.agg ci' f' [])] = .ok w) :
+    {ci' : Nat} {f' : List (Str × Node)} {i' : List Node} {e : Exp} (he : e.ok S (.agg ci' f' i') = true) {w : Node}
+    (h : mk S cv name [] [kv "trnuid" (sv uuid), kv inner (.agg ci' f' i')] = .ok w) :
     (Exp.agg name [("trnuid", .leaf .anyStr), (inner, e)] []).ok S w = true ∧ isCls S name w = true ∧
       fieldVal w "trnuid" = .val (.str uuid) := by
   obtain ⟨ci, c, hc⟩ := reqWF_cls hS hm
@@ -966,7 +1081,7 @@ theorem trnrq_spec (hS : ReqWF S = true) (hcv : ConvOK cv Ptext) {name inner : S
     | cons c cs => simp [kwval, lookup, kv, sv, normNode, norm]
   refine ⟨?_, hcls, htr⟩
   have hin' : "trnuid".toList ≠ inner.toList := fun e => hin e.symm
-  have hinner : fieldVal (Node.agg ci f []) inner = .agg ci' f' [] := by
+  have hinner : fieldVal (Node.agg ci f []) inner = .agg ci' f' i' := by
     rw [hfv]
     simp only [kwval, lookup, kv, if_neg hin', if_true, Option.getD_some, normNode_agg]
   have hany : Want.ok .anyStr (.val (.str uuid)) = true := by
@@ -1972,6 +2087,1258 @@ theorem requestProfile_spec (hS : ReqWF S = true) (hcv : ConvOK cv Ptext) (cfg :
     (msgCls := "PROFMSGSRQV1") (by simp) (by decide) (by simp [reqTable]) hsoc hw htr hmsgs hroot
 
 end
+/-! ## Part 11: the tax request (`TAX1099RQ` is an `ElementList`) -/
+
+/-- the schema facts used for `TAX1099RQ`: found by name, distinct attribute names, `acctnum`/`recid` texts, an
+    `ElementList` whose one `ListElement` attribute converts integers -/
+def taxWFB (S : Schema) : Bool :=
+  match S.findIdx? "TAX1099RQ".toList with
+  | none => false
+  | some ci =>
+    match S.cls? ci with
+    | none => false
+    | some c =>
+      c.elementList && nodupB ((specNoList c).map (·.name)) &&
+        tTAXRQ.all (fun p => (specNoList c).any (fun a => decide (a.name = p.1.toList) &&
+          decide (Shape.ofKind a.kind = some p.2))) &&
+        (match c.spec.filter (fun a => a.kind.isListElem) with
+         | [a] => (match a.kind with | .listElem (.integer _) _ => true | _ => false)
+         | _ => false)
+
+structure TaxWF (S : Schema) (ci : Nat) (c : Cls) : Prop where
+  fits : ClsFits0 S "TAX1099RQ" tTAXRQ ci c
+  el : c.elementList = true
+  elem : ∃ a l ireq, c.spec.filter (fun a => a.kind.isListElem) = [a] ∧ a.kind = .listElem (.integer l) ireq
+
+theorem taxWF_of {S : Schema} (h : taxWFB S = true) : ∃ ci c, TaxWF S ci c := by
+  unfold taxWFB at h
+  split at h
+  · simp at h
+  rename_i ci hci
+  split at h
+  · simp at h
+  rename_i c hc
+  simp only [Bool.and_eq_true, List.all_eq_true, List.any_eq_true, decide_eq_true_eq] at h
+  obtain ⟨⟨⟨hel, hnd⟩, hattrs⟩, hle⟩ := h
+  refine ⟨ci, c, ⟨hci, hc, nodupB_nodup _ hnd, ?_⟩, hel, ?_⟩
+  · intro k sh hm
+    obtain ⟨a, ha, hn, hs⟩ := hattrs (k, sh) hm
+    exact ⟨a, ha, hn, hs⟩
+  · split at hle
+    · rename_i a ha
+      split at hle
+      · rename_i l ireq hk
+        exact ⟨a, l, ireq, ha, hk⟩
+      · simp at hle
+    · simp at hle
+
+/-- what C06 assumes of the integer converter on canonical decimal texts (tax years) -/
+def ConvYear (cv : Conv) : Prop :=
+  ∀ enums l r (j : Int) v', cv.convert enums (.integer l) r (.str (pyStrInt j)) = .ok v' → v' = .int j
+
+theorem conv_year : ConvYear Types.conv := by
+  intro enums l r j v' h
+  simp only [Types.conv, Types.convert, Types.integerConvert] at h
+  have hne : (pyStrInt j).length ≠ 0 := fun h0 => Ofx.Types.pyStrInt_ne_nil j (List.length_eq_zero_iff.mp h0)
+  simp only [hne, if_false, pyIntParse_pyStrInt, bind, Except.bind] at h
+  split at h
+  · simp at h
+  · simp only [pure, Except.pure, Except.ok.injEq] at h; exact h.symm
+
+theorem want_ostr_orNone (o : Option Str) : Want.ok (.ostr o) (normNode (osv (orNone o))) = true := by
+  cases o with
+  | none => simp [orNone, osv, normNode, norm, Want.ok, emptyAsNone]
+  | some s =>
+    cases s with
+    | nil => simp [orNone, osv, normNode, norm, Want.ok, emptyAsNone]
+    | cons c cs => simp [orNone, osv, normNode, norm, Want.ok, emptyAsNone]
+
+section
+variable {S : Schema} {cv : Conv} {Ptext : Str → Prop}
+
+/-- **the tax request**: `request_tax1099(password, *taxyears, acctnum=…, recid=…)` places the account number, the
+    record id and the tax years exactly as given -/
+theorem requestTax_spec (hS : ReqWF S = true) (hT : taxWFB S = true) (hcv : ConvOK cv Ptext) (hy : ConvYear cv)
+    (cfg : Cfg) (pw : Str) (years : List Str) (acctnum recid : Option Str) (us : Nat → Str) (dtc : DT)
+    (htexts : ∀ s ∈ cfg.texts, Ptext s) (hpw : Ptext pw)
+    (hacct : ∀ s, acctnum = some s → Ptext s) (hrec : ∀ s, recid = some s → Ptext s)
+    (hyears : ∀ y ∈ years, ∃ j : Int, y = pyStrInt j)
+    (hu : Ptext (us 0)) (hne : us 0 ≠ []) {root : Node}
+    (h : requestTax S cv cfg pw years acctnum recid us dtc = .ok root) :
+    checkTax S cfg pw dtc years acctnum recid (Int.ofNat cfg.version) root = [] := by
+  simp only [requestTax] at h
+  obtain ⟨so, hso, h1⟩ := bind_ok h
+  obtain ⟨rq, hrq, h2⟩ := bind_ok h1
+  obtain ⟨trn, htrn, h3⟩ := bind_ok h2
+  obtain ⟨msgs, hmsgs, hroot⟩ := bind_ok h3
+  clear h h1 h2 h3
+  obtain ⟨hsoc, cis, fs, rfl⟩ := signon_spec hS hcv cfg pw none dtc htexts hpw (by simp) hso
+  obtain ⟨ci, c, hT⟩ := taxWF_of hT
+  have horN : ∀ (o : Option Str), (∀ s, o = some s → Ptext s) → ∀ s, orNone o = some s → Ptext s := by
+    intro o ho s hs
+    cases o with
+    | none => simp [orNone] at hs
+    | some t =>
+      simp only [orNone] at hs
+      split at hs
+      · simp at hs
+      · simp only [Option.some.injEq] at hs; exact hs ▸ ho t rfl
+  obtain ⟨f, items, rfl, hitems, hcls, hfv, hoth⟩ := mk_fields hcv hT.fits
+    (forall_kw_cons (kwFit_of0 hT.fits (k := "acctnum") (sh := .text) (by simp) (fits_osv (horN _ hacct)))
+    (forall_kw_cons (kwFit_of0 hT.fits (k := "recid") (sh := .text) (by simp) (fits_osv (horN _ hrec)))
+    (forall_kw_nil _))) hrq
+  -- the tax years
+  have hit : all2 Want.ok (years.map Want.year) items = true := by
+    obtain ⟨a, l, ireq, hfil, hk⟩ := hT.elem
+    simp only [applyArgs, hT.el, if_true, hfil, hk] at hitems
+    have hrel := mapM_forall2 hitems
+    clear hitems hrq
+    generalize items = its at hrel
+    induction years generalizing its with
+    | nil => cases hrel; rfl
+    | cons y ys ih =>
+      simp only [List.map_cons] at hrel
+      cases hrel with
+      | cons hab hrest =>
+        obtain ⟨j, hj⟩ := hyears y (by simp)
+        subst hj
+        simp only [sv, Node.toVal, Except.map] at hab
+        split at hab
+        · simp at hab
+        · rename_i v hv
+          simp only [Except.ok.injEq] at hab
+          subst hab
+          rw [hy _ _ _ _ _ hv]
+          simp only [List.map_cons, all2, Want.ok, decide_true, Bool.true_and]
+          exact ih (fun y hy' => hyears y (List.mem_cons_of_mem _ hy')) _ hrest
+  have ho := hoth ["acctnum", "recid"] (by simp [kv])
+  have he : (expTaxRq years acctnum recid).ok S (.agg ci f items) = true := by
+    simp [expTaxRq, Exp.ok, fieldsOk, fieldNames, hcls, hfv, ho, Node.items, kwval, lookup, kv, want_ostr_orNone, hit]
+  obtain ⟨hw, _, htr⟩ := trnrq_spec hS hcv (name := "TAX1099TRNRQ") (inner := "tax1099rq")
+    (tbl := tTAXTRNRQ) (by simp [reqTable]) (by simp) (by simp) (by decide) hu hne he htrn
+  exact single_spec hS hcv cfg cfg.userid pw dtc cfg.version (attr := "tax1099msgsrqv1")
+    (msgCls := "TAX1099MSGSRQV1") (by simp) (by decide) (by simp [reqTable]) hsoc hw htr hmsgs hroot
+
+end
+/-! ## Part 12: the composed request is a `Valid` instance (so the file round trip C01 applies) -/
+
+/-- a datetime keyword satisfies `Pd` -/
+def NodeWire (Pd : DT → Prop) : Node → Prop
+  | .val (.dt d) => Pd d
+  | _ => True
+
+/-- what C06 assumes of the converters to land in the wire domain `Dom`: a conversion never yields `None` for a
+    required element; texts satisfying `Ptext`, bools and datetimes satisfying `Pd` that are converted to themselves
+    are in `Dom` -/
+structure ConvInto (cv : Conv) (enums : List (List Str)) (Dom : Kind → Bool → Val → Prop) (Ptext : Str → Prop)
+    (Pd : DT → Prop) : Prop where
+  req_none : ∀ k r, k.isList = false → k.isUnsupported = false → Kind.subTarget k = none →
+    cv.convert enums k r .none = .ok .none → r = false
+  req_empty : ∀ k r, Shape.ofKind k = some .text → cv.convert enums k r (.str []) = .ok .none → r = false
+  text : ∀ k r s, Shape.ofKind k = some .text → Ptext s → s ≠ [] → cv.convert enums k r (.str s) = .ok (.str s) →
+    Dom k r (.str s)
+  flag : ∀ k r b, Shape.ofKind k = some .flag → Dom k r (.bool b)
+  date : ∀ k r d, Shape.ofKind k = some .date → Pd d → Dom k r (.dt d)
+
+section
+variable {S : Schema} {cv : Conv} {Ptext : Str → Prop} {Pd : DT → Prop} {esc : Str → Str}
+  {Dom : Kind → Bool → Val → Prop}
+
+/-- a keyword argument as `mk_valid` needs it: `None`, or a value fitting the shape of the attribute it names,
+    datetimes in `Pd`, aggregates valid and of exactly the attribute's class -/
+def KwWire (S : Schema) (cv : Conv) (esc : Str → Str) (Dom : Kind → Bool → Val → Prop) (c : Cls)
+    (Ptext : Str → Prop) (Pd : DT → Prop) (p : Str × Node) : Prop :=
+  p.2 = .val .none ∨ ∃ a ∈ specNoList c, a.name = p.1 ∧ ∃ sh, Shape.ofKind a.kind = some sh ∧ sh.fits Ptext p.2 ∧
+    NodeWire Pd p.2 ∧ (∀ cj f i, p.2 = .agg cj f i → a.kind = .sub cj ∧ Valid S cv esc Dom p.2)
+
+theorem KwWire.fit {c : Cls} {p : Str × Node} (h : KwWire S cv esc Dom c Ptext Pd p) : KwFit c Ptext p := by
+  rcases h with h | ⟨a, ha, hn, sh, hs, hf, _⟩
+  · exact Or.inl h
+  · exact Or.inr ⟨a, ha, hn, sh, hs, hf⟩
+
+/-- an attribute that was given `None` (or nothing) holds an admissible `None` -/
+theorem fieldOk_none (hcv : ConvOK cv Ptext) (hinto : ConvInto cv S.enums Dom Ptext Pd) (a : Attr)
+    (hnl : a.kind.isList = false) (hu : a.kind.isUnsupported = false)
+    (hset : setAttr S cv a (.val .none) = .ok (some (.val .none))) : FieldOk Dom a (.val .none) := by
+  unfold FieldOk
+  split
+  · rename_i t hst
+    left
+    refine ⟨rfl, ?_⟩
+    have hk : a.kind = .sub t := by cases hka : a.kind <;> simp_all [Kind.subTarget]
+    simp only [setAttr, hk, convertSub] at hset
+    split at hset
+    · simp [Except.map] at hset
+    · rename_i hr; simpa using hr
+  · rename_i hst
+    refine ⟨.none, rfl, fun _ => ?_, fun hne => absurd rfl hne⟩
+    have hconv : cv.convert S.enums a.kind a.required .none = .ok .none := by
+      unfold setAttr at hset
+      split at hset
+      · simp at hset
+      · rename_i t hk; simp [hk, Kind.subTarget] at hst
+      · simp at hset
+      · simp at hset
+      · simp only [Node.toVal, Except.map] at hset
+        split at hset
+        · simp at hset
+        · rename_i v' hv'
+          have := hcv.none _ _ _ _ hv'
+          subst this
+          exact hv'
+    exact hinto.req_none _ _ hnl hu hst hconv
+
+/-- a leaf attribute that was given a wire value holds an admissible value -/
+theorem fieldOk_leaf (hcv : ConvOK cv Ptext) (hinto : ConvInto cv S.enums Dom Ptext Pd) (a : Attr) (sh : Shape)
+    (x : Val) (hsh : Shape.ofKind a.kind = some sh) (hsub : sh ≠ .sub) (hfit : sh.fits Ptext (.val x))
+    (hwire : NodeWire Pd (.val x))
+    (hset : setAttr S cv a (.val x) = .ok (some (normNode (.val x)))) : FieldOk Dom a (normNode (.val x)) := by
+  have hst : Kind.subTarget a.kind = none := by
+    cases hka : a.kind <;> simp_all [Kind.subTarget, Shape.ofKind]
+  have hconv : cv.convert S.enums a.kind a.required x = .ok (norm x) := by
+    unfold setAttr at hset
+    split at hset
+    · simp at hset
+    · rename_i t hk; simp [hk, Kind.subTarget] at hst
+    · simp at hset
+    · simp at hset
+    · simp only [Node.toVal, Except.map, normNode] at hset
+      split at hset
+      · simp at hset
+      · rename_i v' hv'
+        simp only [Except.ok.injEq, Option.some.injEq, Node.val.injEq] at hset
+        rw [hset] at hv'; exact hv'
+  unfold FieldOk
+  rw [hst]
+  refine ⟨norm x, rfl, ?_, ?_⟩
+  · intro hn
+    cases x with
+    | none => 
+      have hnl : a.kind.isList = false := by cases hka : a.kind <;> simp_all [Kind.isList, Shape.ofKind]
+      have hu : a.kind.isUnsupported = false := by cases hka : a.kind <;> simp_all [Kind.isUnsupported, Shape.ofKind]
+      exact hinto.req_none _ _ hnl hu hst hconv
+    | str s =>
+      cases s with
+      | nil =>
+        have hte : sh = .text := by cases sh <;> simp_all [Shape.fits]
+        subst hte
+        exact hinto.req_empty _ _ hsh hconv
+      | cons ch cs => simp [norm] at hn
+    | _ => simp [norm] at hn
+  · intro hn
+    cases x with
+    | none => simp [norm] at hn
+    | str s =>
+      cases s with
+      | nil => simp [norm] at hn
+      | cons ch cs =>
+        have hte : sh = .text := by cases sh <;> simp_all [Shape.fits]
+        subst hte
+        exact hinto.text _ _ _ hsh (by simpa [Shape.fits] using hfit) (by simp) hconv
+    | bool b =>
+      have hte : sh = .flag := by cases sh <;> simp_all [Shape.fits]
+      subst hte
+      exact hinto.flag _ _ _ hsh
+    | dt d =>
+      have hte : sh = .date := by cases sh <;> simp_all [Shape.fits]
+      subst hte
+      exact hinto.date _ _ _ hsh (by simpa [NodeWire] using hwire)
+    | int i => cases sh <;> simp [Shape.fits] at hfit
+    | dec d => cases sh <;> simp [Shape.fits] at hfit
+    | tm t => cases sh <;> simp [Shape.fits] at hfit
+    | other k => cases sh <;> simp [Shape.fits] at hfit
+
+/-- **`Cls(*args, **kw)` is a `Valid` instance** when the class satisfies the round-trip premises, the keywords are
+    wire values (`KwWire`), the list members are valid and `validate_args` accepts the written-back keywords -/
+theorem mk_valid (hcv : ConvOK cv Ptext) (hinto : ConvInto cv S.enums Dom Ptext Pd) {name : String}
+    {tbl : List (String × Shape)} {ci : Nat} {c : Cls} (hc : ClsFits S name tbl ci c) (hpl : ClsPlain S c ci)
+    {args : List Node} {kw : List (Str × Node)} {n : Node}
+    (hkw : ∀ p ∈ kw, KwWire S cv esc Dom c Ptext Pd p)
+    (hargs : ∀ m ∈ args, Valid S cv esc Dom m ∧
+      ∃ cj f i cjc, m = .agg cj f i ∧ S.cls? cj = some cjc ∧ '.' ∉ cjc.name)
+    (hval : ∀ fields, setAttrs S cv (specNoList c) kw = .ok fields →
+      validateArgs S c args (rawKwOf S cv esc fields c.spec) = .ok ())
+    (h : mk S cv name args kw = .ok n) : Valid S cv esc Dom n := by
+  simp only [mk, hc.idx] at h
+  apply construct_valid S cv esc Dom hpl h _ hargs hval
+  intro a ha hu v hset
+  have hnl : a.kind.isList = false := by simpa [specNoList] using (List.mem_filter.mp ha).2
+  have hnonecase : ∀ v, setAttr S cv a (.val .none) = .ok (some v) →
+      FieldOk Dom a v ∧ (v.isAgg = true → Valid S cv esc Dom v) := by
+    intro v hset
+    rcases setAttr_none hcv a _ hset with h0 | h0
+    · simp at h0
+    · simp only [Option.some.injEq] at h0
+      subst h0
+      exact ⟨fieldOk_none hcv hinto a hnl hu hset, by simp [Node.isAgg]⟩
+  cases hl : lookup a.name kw with
+  | none =>
+    rw [hl] at hset
+    exact hnonecase v hset
+  | some v0 =>
+    rw [hl] at hset
+    simp only [Option.getD_some] at hset
+    rcases hkw _ (lookup_mem hl) with hnone | ⟨a', ha', hn', sh, hsh, hfit, hwire, hagg⟩
+    · simp only at hnone
+      subst hnone
+      exact hnonecase v hset
+    · have : a' = a := nodup_map_inj (·.name) hc.nodup ha' ha hn'
+      subst this
+      have hv := setAttr_faithful hcv a' sh v0 _ hsh hfit hset
+      simp only [Option.some.injEq] at hv
+      subst hv
+      cases v0 with
+      | agg cj f i =>
+        obtain ⟨hk, hvalid⟩ := hagg cj f i rfl
+        refine ⟨?_, fun _ => hvalid⟩
+        unfold FieldOk
+        simp only [hk, Kind.subTarget, normNode]
+        exact Or.inr ⟨f, i, rfl⟩
+      | val x =>
+        by_cases hx : x = .none
+        · subst hx
+          exact hnonecase _ hset
+        · have hsub : sh ≠ .sub := by
+            intro e; subst e
+            cases x with
+            | none => exact hx rfl
+            | _ => simp [Shape.fits] at hfit
+          exact ⟨fieldOk_leaf hcv hinto a' sh x hsh hsub hfit hwire hset, by simp [normNode, Node.isAgg]⟩
+
+end
+
+/-! ### the class-level premises, as a decidable predicate on the schema -/
+
+def wireClsB (S : Schema) (name : String) (tbl : List (String × Shape)) : Bool :=
+  match S.findIdx? name.toList with
+  | none => false
+  | some ci =>
+    match S.cls? ci with
+    | none => false
+    | some c =>
+      !c.abstract && Ofx.WF.roundTripOk S c && !c.elementList && decide (c.groom = none) && decide (c.ungroom = none) &&
+      !c.name.contains '.' &&
+      tbl.all (fun p => p.2 != Shape.sub || (specNoList c).any (fun a => decide (a.name = p.1.toList) &&
+        (match a.kind with
+         | .sub t => decide (S.findIdx? (upper p.1.toList) = some t)
+         | _ => false)))
+
+/-- no hand-coded `validate_args`, no exclusivity groups -/
+def trivValB (S : Schema) (name : String) : Bool :=
+  match S.findIdx? name.toList with
+  | none => false
+  | some ci =>
+    match S.cls? ci with
+    | none => false
+    | some c => decide (c.extra = .none) && c.optMutex.isEmpty && c.reqMutex.isEmpty
+
+structure WireCls (S : Schema) (tbl : List (String × Shape)) (ci : Nat) (c : Cls) : Prop where
+  plain : ClsPlain S c ci
+  nodot : '.' ∉ c.name
+  sub : ∀ k, (k, Shape.sub) ∈ tbl → ∃ a ∈ specNoList c, a.name = k.toList ∧ ∃ t, a.kind = .sub t ∧
+    S.findIdx? (upper k.toList) = some t
+
+theorem findIdx_name {S : Schema} {tag : Str} {ci : Nat} {c : Cls} (h : S.findIdx? tag = some ci)
+    (hc : S.cls? ci = some c) : c.name = tag := by
+  simp only [Schema.findIdx?] at h
+  rw [List.findIdx?_eq_some_iff_getElem] at h
+  obtain ⟨h1, ha, _⟩ := h
+  simp only [Schema.cls?] at hc
+  rw [List.getElem?_eq_getElem h1] at hc
+  simp only [Option.some.injEq] at hc
+  subst hc
+  simp only [Bool.and_eq_true, beq_iff_eq] at ha
+  exact ha.1
+
+theorem wireCls_of {S : Schema} {name : String} {tbl : List (String × Shape)} {ci : Nat} {c : Cls}
+    (hf : ClsFits S name tbl ci c) (h : wireClsB S name tbl = true) : WireCls S tbl ci c := by
+  unfold wireClsB at h
+  rw [hf.idx] at h
+  simp only [hf.cls] at h
+  simp only [Bool.and_eq_true, Bool.not_eq_eq_eq_not, Bool.not_true, decide_eq_true_eq, List.all_eq_true,
+    Bool.or_eq_true, bne_iff_ne, ne_eq, List.any_eq_true] at h
+  obtain ⟨⟨⟨⟨⟨⟨habs, hrt⟩, hel⟩, hg⟩, hug⟩, hdot⟩, hsub⟩ := h
+  have hname := findIdx_name hf.idx hf.cls
+  refine ⟨⟨hf.cls, habs, by rw [hname]; exact hf.idx, Ofx.WF.roundTripOk_clsWF S c hrt, hel, hg, hug⟩, ?_, ?_⟩
+  · simpa using hdot
+  · intro k hk
+    rcases hsub (k, .sub) hk with h1 | ⟨a, ha, hn, hkind⟩
+    · exact absurd rfl h1
+    · refine ⟨a, ha, hn, ?_⟩
+      split at hkind
+      · rename_i t hka
+        exact ⟨t, hka, by simpa using hkind⟩
+      · simp at hkind
+
+theorem trivVal_of {S : Schema} {name : String} {tbl : List (String × Shape)} {ci : Nat} {c : Cls}
+    (hf : ClsFits S name tbl ci c) (h : trivValB S name = true) :
+    c.extra = .none ∧ c.optMutex = [] ∧ c.reqMutex = [] := by
+  unfold trivValB at h
+  rw [hf.idx] at h
+  simp only [hf.cls, Bool.and_eq_true, decide_eq_true_eq, List.isEmpty_iff] at h
+  exact ⟨h.1.1, h.1.2, h.2⟩
+
+/-- `validate_args` facts of the two request classes that have a hand-coded rule -/
+def sonrqValB (S : Schema) : Bool :=
+  match S.findIdx? "SONRQ".toList with
+  | none => false
+  | some ci =>
+    match S.cls? ci with
+    | none => false
+    | some c => decide (c.extra = .sonrq) && c.optMutex.isEmpty && c.reqMutex.isEmpty
+
+def ofxValB (S : Schema) : Bool :=
+  match S.findIdx? "OFX".toList with
+  | none => false
+  | some ci =>
+    match S.cls? ci with
+    | none => false
+    | some c => decide (c.extra = .ofx) && c.optMutex.isEmpty &&
+        decide (c.reqMutex = [["signonmsgsrqv1".toList, "signonmsgsrsv1".toList]])
+
+/-- the premises of the file round trip for every class the client instantiates -/
+def WireWF (S : Schema) : Bool :=
+  reqTable.all (fun p => wireClsB S p.1 p.2) &&
+  reqTable.all (fun p => p.1 == "SONRQ" || p.1 == "OFX" || p.1 == "TAX1099MSGSRQV1" || trivValB S p.1) &&
+  sonrqValB S && ofxValB S
+
+theorem wireWF_cls {S : Schema} (h : WireWF S = true) {name : String} {tbl : List (String × Shape)}
+    (hm : (name, tbl) ∈ reqTable) {ci : Nat} {c : Cls} (hf : ClsFits S name tbl ci c) : WireCls S tbl ci c := by
+  simp only [WireWF, Bool.and_eq_true, List.all_eq_true] at h
+  exact wireCls_of hf (h.1.1.1 (name, tbl) hm)
+
+theorem wireWF_triv {S : Schema} (h : WireWF S = true) {name : String} {tbl : List (String × Shape)}
+    (hm : (name, tbl) ∈ reqTable) (h1 : name ≠ "SONRQ") (h2 : name ≠ "OFX") (h3 : name ≠ "TAX1099MSGSRQV1")
+    {ci : Nat} {c : Cls}
+    (hf : ClsFits S name tbl ci c) : c.extra = .none ∧ c.optMutex = [] ∧ c.reqMutex = [] := by
+  simp only [WireWF, Bool.and_eq_true, List.all_eq_true] at h
+  have := h.1.1.2 (name, tbl) hm
+  simp only [Bool.or_eq_true, beq_iff_eq, h1, h2, h3, false_or] at this
+  exact trivVal_of hf this
+
+theorem wireWF_sonrq {S : Schema} (h : WireWF S = true) {tbl : List (String × Shape)} {ci : Nat} {c : Cls}
+    (hf : ClsFits S "SONRQ" tbl ci c) : c.extra = .sonrq ∧ c.optMutex = [] ∧ c.reqMutex = [] := by
+  simp only [WireWF, Bool.and_eq_true] at h
+  have := h.1.2
+  unfold sonrqValB at this
+  rw [hf.idx] at this
+  simp only [hf.cls, Bool.and_eq_true, decide_eq_true_eq, List.isEmpty_iff] at this
+  exact ⟨this.1.1, this.1.2, this.2⟩
+
+theorem wireWF_ofx {S : Schema} (h : WireWF S = true) {tbl : List (String × Shape)} {ci : Nat} {c : Cls}
+    (hf : ClsFits S "OFX" tbl ci c) : c.extra = .ofx ∧ c.optMutex = [] ∧
+      c.reqMutex = [["signonmsgsrqv1".toList, "signonmsgsrsv1".toList]] := by
+  simp only [WireWF, Bool.and_eq_true] at h
+  have := h.2
+  unfold ofxValB at this
+  rw [hf.idx] at this
+  simp only [hf.cls, Bool.and_eq_true, decide_eq_true_eq, List.isEmpty_iff] at this
+  exact ⟨this.1.1, this.1.2, this.2⟩
+
+section
+variable {S : Schema} {cv : Conv} {Ptext : Str → Prop} {Pd : DT → Prop} {esc : Str → Str}
+  {Dom : Kind → Bool → Val → Prop}
+
+theorem kwWire_none {c : Cls} (k : String) : KwWire S cv esc Dom c Ptext Pd (kv k (.val .none)) := Or.inl rfl
+
+theorem kwWire_leaf {name : String} {tbl : List (String × Shape)} {ci : Nat} {c : Cls}
+    (hc : ClsFits S name tbl ci c) {k : String} {sh : Shape} (hm : (k, sh) ∈ tbl) {x : Val}
+    (hv : sh.fits Ptext (.val x)) (hw : NodeWire Pd (.val x)) :
+    KwWire S cv esc Dom c Ptext Pd (kv k (.val x)) := by
+  obtain ⟨a, ha, hn, hs⟩ := hc.attrs k sh hm
+  exact Or.inr ⟨a, ha, hn, sh, hs, hv, hw, by intro cj f i h; cases h⟩
+
+theorem kwWire_osv {name : String} {tbl : List (String × Shape)} {ci : Nat} {c : Cls}
+    (hc : ClsFits S name tbl ci c) {k : String} (hm : (k, Shape.text) ∈ tbl) {o : Option Str}
+    (h : ∀ s, o = some s → Ptext s) : KwWire S cv esc Dom c Ptext Pd (kv k (osv o)) := by
+  cases o with
+  | none => exact Or.inl rfl
+  | some s => exact kwWire_leaf hc hm (by simpa [Shape.fits] using h s rfl) (by simp [NodeWire])
+
+theorem kwWire_sv {name : String} {tbl : List (String × Shape)} {ci : Nat} {c : Cls}
+    (hc : ClsFits S name tbl ci c) {k : String} (hm : (k, Shape.text) ∈ tbl) {s : Str}
+    (h : Ptext s) : KwWire S cv esc Dom c Ptext Pd (kv k (sv s)) :=
+  kwWire_leaf hc hm (by simpa [Shape.fits] using h) (by simp [NodeWire])
+
+theorem kwWire_odt {name : String} {tbl : List (String × Shape)} {ci : Nat} {c : Cls}
+    (hc : ClsFits S name tbl ci c) {k : String} (hm : (k, Shape.date) ∈ tbl) {o : Option DT}
+    (h : ∀ d, o = some d → Pd d) : KwWire S cv esc Dom c Ptext Pd (kv k (odt o)) := by
+  cases o with
+  | none => exact Or.inl rfl
+  | some d => exact kwWire_leaf hc hm (by simp [Shape.fits]) (by simpa [NodeWire] using h d rfl)
+
+theorem kwWire_obv {name : String} {tbl : List (String × Shape)} {ci : Nat} {c : Cls}
+    (hc : ClsFits S name tbl ci c) {k : String} (hm : (k, Shape.flag) ∈ tbl) (o : Option Bool) :
+    KwWire S cv esc Dom c Ptext Pd (kv k (obv o)) := by
+  cases o with
+  | none => exact Or.inl rfl
+  | some b => exact kwWire_leaf hc hm (by simp [Shape.fits]) (by simp [NodeWire])
+
+theorem kwWire_sub {tbl : List (String × Shape)} {ci : Nat} {c : Cls} (hw : WireCls S tbl ci c) {k : String}
+    (hm : (k, Shape.sub) ∈ tbl) {cj : Nat} {f : List (Str × Node)} {i : List Node}
+    (hidx : S.findIdx? (upper k.toList) = some cj) (hvalid : Valid S cv esc Dom (.agg cj f i)) :
+    KwWire S cv esc Dom c Ptext Pd (kv k (.agg cj f i)) := by
+  obtain ⟨a, ha, hn, t, hk, ht⟩ := hw.sub k hm
+  rw [hidx] at ht
+  simp only [Option.some.injEq] at ht
+  subst ht
+  refine Or.inr ⟨a, ha, hn, .sub, by simp [hk, Shape.ofKind], by simp [Shape.fits, kv], by simp [NodeWire, kv], ?_⟩
+  intro cj' f' i' h
+  simp only [kv, Node.agg.injEq] at h
+  obtain ⟨rfl, rfl, rfl⟩ := h
+  exact ⟨hk, hvalid⟩
+
+/-- plain class without validation rules: `Cls(*args, **kw)` is `Valid` -/
+theorem mk_valid_triv (hcv : ConvOK cv Ptext) (hinto : ConvInto cv S.enums Dom Ptext Pd) {name : String}
+    {tbl : List (String × Shape)} {ci : Nat} {c : Cls} (hc : ClsFits S name tbl ci c) (hw : WireCls S tbl ci c)
+    (ht : c.extra = .none ∧ c.optMutex = [] ∧ c.reqMutex = [])
+    {args : List Node} {kw : List (Str × Node)} {n : Node}
+    (hkw : ∀ p ∈ kw, KwWire S cv esc Dom c Ptext Pd p)
+    (hargs : ∀ m ∈ args, Valid S cv esc Dom m ∧
+      ∃ cj f i cjc, m = .agg cj f i ∧ S.cls? cj = some cjc ∧ '.' ∉ cjc.name)
+    (h : mk S cv name args kw = .ok n) : Valid S cv esc Dom n :=
+  mk_valid hcv hinto hc hw.plain hkw hargs (fun _ _ => validate_trivial S c _ _ ht.1 ht.2.1 ht.2.2) h
+
+/-- a written-back keyword comes from a supported, non-repeated attribute whose field is written -/
+theorem rawKwOf_lookup_some (fields : List (Str × Node)) : ∀ (L : List Attr) (k : Str) (r : Node),
+    lookup k (rawKwOf S cv esc fields L) = some r →
+    ∃ a ∈ L, a.name = k ∧ ∃ v, lookup a.name fields = some v ∧ rawField S cv esc a v = some r
+  | [], k, r, h => by simp [rawKwOf, lookup] at h
+  | b :: L, k, r, h => by
+    have ih := fun h' => rawKwOf_lookup_some fields L k r h'
+    have lift : (∃ a ∈ L, a.name = k ∧ ∃ v, lookup a.name fields = some v ∧ rawField S cv esc a v = some r) →
+        ∃ a ∈ b :: L, a.name = k ∧ ∃ v, lookup a.name fields = some v ∧ rawField S cv esc a v = some r := by
+      rintro ⟨a, ha, hr⟩; exact ⟨a, List.mem_cons_of_mem _ ha, hr⟩
+    simp only [rawKwOf] at h
+    split at h
+    · exact lift (ih h)
+    · split at h
+      · rename_i v hv
+        split at h
+        · rename_i r' hr'
+          simp only [lookup] at h
+          split at h
+          · rename_i hbk
+            simp only [Option.some.injEq] at h
+            subst h
+            exact ⟨b, by simp, hbk, v, hv, hr'⟩
+          · exact lift (ih h)
+        · exact lift (ih h)
+      · exact lift (ih h)
+
+/-- `rawField` of a `None` field is nothing -/
+theorem rawField_none (a : Attr) : rawField S cv esc a (.val .none) = none := rfl
+
+/-- a keyword that was not passed (its field is `None` wherever it is stored) is not written back -/
+theorem rawKw_absent (fields : List (Str × Node)) (L : List Attr) (k : Str)
+    (h : ∀ v, lookup k fields = some v → v = .val .none) : lookup k (rawKwOf S cv esc fields L) = none := by
+  cases hl : lookup k (rawKwOf S cv esc fields L) with
+  | none => rfl
+  | some r =>
+    obtain ⟨a, _, hn, v, hv, hr⟩ := rawKwOf_lookup_some fields L k r hl
+    rw [hn] at hv
+    rw [h v hv, rawField_none] at hr
+    cases hr
+
+/-- a text field that holds a non-empty value of the wire domain is written back as a truthy keyword -/
+theorem rawKw_truthy (laws : ConvLaws cv S.enums esc Dom) (fields : List (Str × Node)) (L : List Attr)
+    (hnd : (L.map (·.name)).Nodup) (a : Attr) (ha : a ∈ L) (hl : a.kind.isList = false)
+    (hu : a.kind.isUnsupported = false) (x : Val) (hx : x ≠ .none) (hf : lookup a.name fields = some (.val x))
+    (hd : Dom a.kind a.required x) (k : String) (hk : a.name = k.toList) :
+    kwTruthy (rawKwOf S cv esc fields L) k = true := by
+  obtain ⟨s, hs, hne, _⟩ := laws.round _ _ _ hd hx
+  have := lookup_rawKwOf S cv esc fields L hnd a ha hl hu _ hf
+  have hraw : rawField S cv esc a (.val x) = some (.val (.str (esc s))) := by
+    cases x with
+    | none => exact absurd rfl hx
+    | _ => simp [rawField, hs]
+  rw [hraw, hk] at this
+  simp only [kwTruthy, this, truthy]
+  cases hes : esc s with
+  | nil => exact absurd hes hne
+  | cons _ _ => rfl
+
+/-- a text keyword stored by `setattr`: where it is found in the instance dict, and that it is a wire value -/
+theorem stored_text (hcv : ConvOK cv Ptext) (hinto : ConvInto cv S.enums Dom Ptext Pd) {name : String}
+    {tbl : List (String × Shape)} {ci : Nat} {c : Cls} (hc : ClsFits S name tbl ci c) {k : String}
+    (hm : (k, Shape.text) ∈ tbl) {kw : List (Str × Node)} {u : Str} (hkw : lookup k.toList kw = some (sv u))
+    (hu : u ≠ []) (hP : Ptext u) {fields : List (Str × Node)}
+    (hs : setAttrs S cv (specNoList c) kw = .ok fields) :
+    ∃ a ∈ c.spec, a.name = k.toList ∧ a.kind.isList = false ∧ a.kind.isUnsupported = false ∧
+      lookup a.name fields = some (.val (.str u)) ∧ Dom a.kind a.required (.str u) := by
+  obtain ⟨a, ha, hn, hsh⟩ := hc.attrs k .text hm
+  obtain ⟨r, hr, hl⟩ := setAttrs_lookup (specNoList c) kw fields hs hc.nodup a ha
+  have hkv : kwval kw a.name = sv u := by simp [kwval, hn, hkw]
+  rw [hkv] at hr
+  have hfit : Shape.text.fits Ptext (sv u) := by simpa [sv, Shape.fits] using hP
+  have hrv := setAttr_faithful hcv a .text (sv u) r hsh hfit hr
+  subst hrv
+  have hfo := fieldOk_leaf (Dom := Dom) (Pd := Pd) hcv hinto a .text (.str u) hsh (by decide) hfit
+    (by simp [NodeWire]) hr
+  have hnorm : normNode (.val (.str u)) = .val (.str u) := by
+    cases u with
+    | nil => exact absurd rfl hu
+    | cons _ _ => rfl
+  have hst : Kind.subTarget a.kind = none := by cases hka : a.kind <;> simp_all [Kind.subTarget, Shape.ofKind]
+  rw [hnorm] at hfo
+  unfold FieldOk at hfo
+  rw [hst] at hfo
+  obtain ⟨x, hx, _, hd⟩ := hfo
+  simp only [Node.val.injEq] at hx
+  subst hx
+  refine ⟨a, (List.mem_filter.mp ha).1, hn, ?_, ?_, ?_, hd (by simp)⟩
+  · cases hka : a.kind <;> simp_all [Kind.isList, Shape.ofKind]
+  · cases hka : a.kind <;> simp_all [Kind.isUnsupported, Shape.ofKind]
+  · rw [hl]; simp only [sv] ; rw [show normNode (Node.val (Val.str u)) = .val (.str u) from hnorm]
+
+/-- a keyword that was not passed is stored as `None` (if at all) -/
+theorem stored_absent (hcv : ConvOK cv Ptext) {c : Cls} {kw : List (Str × Node)} {k : Str}
+    (hk : lookup k kw = none) {fields : List (Str × Node)} (hs : setAttrs S cv (specNoList c) kw = .ok fields) :
+    ∀ v, lookup k fields = some v → v = .val .none := by
+  intro v hv
+  obtain ⟨a, _, hn, hset⟩ := setAttrs_mem (specNoList c) kw fields hs k v (lookup_mem hv)
+  have : kwval kw k = .val .none := by simp [kwval, hk]
+  rw [this] at hset
+  rcases setAttr_none hcv a _ hset with h0 | h0
+  · simp at h0
+  · simpa using h0
+
+end
+/-! ## Part 13: the builders return `Valid` instances -/
+
+section
+variable {S : Schema} {cv : Conv} {Ptext : Str → Prop} {Pd : DT → Prop} {esc : Str → Str}
+  {Dom : Kind → Bool → Val → Prop}
+
+/-- the result of `mk` for a table class: an instance of that class, whose class has no dot in its name -/
+theorem mk_shape {name : String} {tbl : List (String × Shape)} {ci : Nat} {c : Cls}
+    (hc : ClsFits S name tbl ci c) {args : List Node} {kw : List (Str × Node)} {n : Node}
+    (h : mk S cv name args kw = .ok n) : ∃ f, n = .agg ci f args := by
+  simp only [mk, hc.idx] at h
+  obtain ⟨c', fields, items, hc', _, _, ha, _, rfl⟩ := (construct_ok_iff S cv ci args kw n).mp h
+  rw [hc.cls] at hc'; injection hc' with hc'; subst hc'
+  exact ⟨fields, by rw [applyArgs_plain hc.plain ha]⟩
+
+theorem extraRule_sonrq_ok {args : List Node} {kw : List (Str × Node)}
+    (h : extraRule S .sonrq args kw = .ok ()) :
+    (kwTruthy kw "userid" = true ∧ kwTruthy kw "userpass" = true) ∨ kwTruthy kw "userkey" = true := by
+  simp only [extraRule] at h
+  split at h
+  · rename_i hc
+    simp only [Bool.and_eq_true, Bool.or_eq_true] at hc
+    rcases hc.1 with h1 | h1
+    · exact Or.inl h1
+    · exact Or.inr h1
+  · simp at h
+
+theorem signon_valid (hS : ReqWF S = true) (hW : WireWF S = true) (hcv : ConvOK cv Ptext)
+    (hinto : ConvInto cv S.enums Dom Ptext Pd) (laws : ConvLaws cv S.enums esc Dom) (cfg : Cfg) (userpass : Str)
+    (userid : Option Str) (dtclient : DT) (htexts : ∀ s ∈ cfg.texts, Ptext s) (hpw : Ptext userpass)
+    (huid : ∀ s, userid = some s → Ptext s) (hdt : Pd dtclient) {so : Node}
+    (h : signon S cv cfg userpass userid dtclient = .ok so) :
+    Valid S cv esc Dom so ∧ ∃ ci f, so = .agg ci f [] ∧ S.findIdx? "SIGNONMSGSRQV1".toList = some ci := by
+  obtain ⟨ciF, cF, hcF⟩ := reqWF_cls hS (name := "FI") (tbl := tFI) (by simp [reqTable])
+  obtain ⟨ciS, cS, hcS⟩ := reqWF_cls hS (name := "SONRQ") (tbl := tSONRQ) (by simp [reqTable])
+  obtain ⟨ciM, cM, hcM⟩ := reqWF_cls hS (name := "SIGNONMSGSRQV1") (tbl := tSIGNONMSGS) (by simp [reqTable])
+  have hwF := wireWF_cls hW (by simp [reqTable]) hcF
+  have hwS := wireWF_cls hW (by simp [reqTable]) hcS
+  have hwM := wireWF_cls hW (by simp [reqTable]) hcM
+  have htF := wireWF_triv hW (name := "FI") (by simp [reqTable]) (by decide) (by decide) (by decide) hcF
+  have htM := wireWF_triv hW (name := "SIGNONMSGSRQV1") (by simp [reqTable]) (by decide) (by decide) (by decide) hcM
+  have hxS := wireWF_sonrq hW hcS
+  simp only [Cfg.texts, List.mem_append, List.mem_cons, Option.mem_toList, List.mem_nil_iff, or_false] at htexts
+  have huid' : Ptext (orDefault userid cfg.userid) := by
+    cases userid with
+    | none => exact htexts _ (by simp [orDefault])
+    | some u => exact huid u rfl
+  rw [signon] at h
+  obtain ⟨fi, hfi, h1⟩ := bind_ok h
+  obtain ⟨sonrq, hsonrq, hmsgs⟩ := bind_ok h1
+  clear h h1
+  -- FI
+  have hfiW : KwWire S cv esc Dom cS Ptext Pd (kv "fi" fi) := by
+    rw [fiNode] at hfi
+    by_cases horg : orgSet cfg = true
+    · rw [if_pos horg] at hfi
+      have hkw : ∀ p ∈ [kv "org" (osv cfg.org), kv "fid" (osv cfg.fid)], KwWire S cv esc Dom cF Ptext Pd p :=
+        forall_kw_cons (kwWire_osv hcF (k := "org") (by simp) (fun s hs => htexts s (by simp [hs])))
+          (forall_kw_cons (kwWire_osv hcF (k := "fid") (by simp) (fun s hs => htexts s (by simp [hs])))
+            (forall_kw_nil _))
+      have hv := mk_valid_triv hcv hinto hcF hwF htF hkw (by simp) hfi
+      obtain ⟨f, rfl⟩ := mk_shape hcF hfi
+      exact kwWire_sub hwS (k := "fi") (by simp)
+        (by rw [show upper "fi".toList = "FI".toList from by decide]; exact hcF.idx) hv
+    · rw [if_neg horg] at hfi
+      simp only [pure, Except.pure, Except.ok.injEq] at hfi
+      subst hfi
+      exact kwWire_none _
+  have hcu : ∀ s, (if cfg.version < 103 then none else cfg.clientuid) = some s → Ptext s := by
+    intro s hs
+    split at hs
+    · simp at hs
+    · exact htexts s (by simp [hs])
+  -- SONRQ
+  have hkwS : ∀ p ∈ [kv "dtclient" (Node.val (Val.dt dtclient)), kv "userid" (sv (orDefault userid cfg.userid)),
+      kv "userpass" (sv userpass), kv "language" (sv cfg.language), kv "fi" fi, kv "sesscookie" (Node.val Val.none),
+      kv "appid" (sv cfg.appid), kv "appver" (sv cfg.appver),
+      kv "clientuid" (osv (if cfg.version < 103 then none else cfg.clientuid))],
+      KwWire S cv esc Dom cS Ptext Pd p :=
+    forall_kw_cons (kwWire_leaf hcS (k := "dtclient") (sh := .date) (by simp) (by simp [Shape.fits])
+      (by simpa [NodeWire] using hdt))
+    (forall_kw_cons (kwWire_sv hcS (k := "userid") (by simp) huid')
+    (forall_kw_cons (kwWire_sv hcS (k := "userpass") (by simp) hpw)
+    (forall_kw_cons (kwWire_sv hcS (k := "language") (by simp) (htexts _ (by simp)))
+    (forall_kw_cons hfiW
+    (forall_kw_cons (kwWire_none _)
+    (forall_kw_cons (kwWire_sv hcS (k := "appid") (by simp) (htexts _ (by simp)))
+    (forall_kw_cons (kwWire_sv hcS (k := "appver") (by simp) (htexts _ (by simp)))
+    (forall_kw_cons (kwWire_osv hcS (k := "clientuid") (by simp) hcu)
+    (forall_kw_nil _)))))))))
+  -- user id and password are non-empty: the original `validate_args` accepted them
+  have hne : orDefault userid cfg.userid ≠ [] ∧ userpass ≠ [] := by
+    have hmk := hsonrq
+    simp only [mk, hcS.idx] at hmk
+    obtain ⟨c', _, _, _, hc', hx, _⟩ := C04_sound_kw S cv ciS _ _ _ hmk
+    rw [hcS.cls] at hc'; injection hc' with hc'; subst hc'
+    rw [hxS.1] at hx
+    rcases extraRule_sonrq_ok hx with ⟨h1, h2⟩ | h3
+    · have e1 : kwTruthy [kv "dtclient" (Node.val (Val.dt dtclient)), kv "userid" (sv (orDefault userid cfg.userid)),
+          kv "userpass" (sv userpass), kv "language" (sv cfg.language), kv "fi" fi,
+          kv "sesscookie" (Node.val Val.none), kv "appid" (sv cfg.appid), kv "appver" (sv cfg.appver),
+          kv "clientuid" (osv (if cfg.version < 103 then none else cfg.clientuid))] "userid" =
+          truthy (sv (orDefault userid cfg.userid)) := by simp [kwTruthy, lookup, kv]
+      have e2 : kwTruthy [kv "dtclient" (Node.val (Val.dt dtclient)), kv "userid" (sv (orDefault userid cfg.userid)),
+          kv "userpass" (sv userpass), kv "language" (sv cfg.language), kv "fi" fi,
+          kv "sesscookie" (Node.val Val.none), kv "appid" (sv cfg.appid), kv "appver" (sv cfg.appver),
+          kv "clientuid" (osv (if cfg.version < 103 then none else cfg.clientuid))] "userpass" =
+          truthy (sv userpass) := by simp [kwTruthy, lookup, kv]
+      rw [e1] at h1; rw [e2] at h2
+      simp only [sv, truthy, Bool.not_eq_eq_eq_not, Bool.not_true, List.isEmpty_eq_false_iff] at h1 h2
+      exact ⟨h1, h2⟩
+    · simp [kwTruthy, lookup, kv] at h3
+  -- SONRQ
+  have hvS : Valid S cv esc Dom sonrq := by
+    apply mk_valid hcv hinto hcS hwS.plain hkwS (by simp) _ hsonrq
+    intro fields hsf
+    obtain ⟨a1, ha1, hn1, hl1, hu1, hf1, hd1⟩ := stored_text hcv hinto hcS (k := "userid") (by simp)
+      (u := orDefault userid cfg.userid) (by simp [lookup, kv]) hne.1 huid' hsf
+    obtain ⟨a2, ha2, hn2, hl2, hu2, hf2, hd2⟩ := stored_text hcv hinto hcS (k := "userpass") (by simp)
+      (u := userpass) (by simp [lookup, kv]) hne.2 hpw hsf
+    have hk := stored_absent hcv (k := "userkey".toList) (by simp [lookup, kv]) hsf
+    have t1 := rawKw_truthy laws fields cS.spec hwS.plain.wf.nodup a1 ha1 hl1 hu1 _ (by simp) hf1 hd1 "userid" hn1
+    have t2 := rawKw_truthy laws fields cS.spec hwS.plain.wf.nodup a2 ha2 hl2 hu2 _ (by simp) hf2 hd2 "userpass" hn2
+    have t3 : kwTruthy (rawKwOf S cv esc fields cS.spec) "userkey" = false := by
+      unfold kwTruthy
+      rw [rawKw_absent fields cS.spec _ hk]
+    simp [validateArgs, hxS.1, hxS.2.1, hxS.2.2, extraRule, t1, t2, t3, enforceCount, bind, Except.bind]
+  obtain ⟨fS, rfl⟩ := mk_shape hcS hsonrq
+  have hvM := mk_valid_triv hcv hinto hcM hwM htM
+    (forall_kw_cons (kwWire_sub hwM (k := "sonrq") (by simp)
+      (by rw [show upper "sonrq".toList = "SONRQ".toList from by decide]; exact hcS.idx) hvS) (forall_kw_nil _))
+    (by simp) hmsgs
+  obtain ⟨fM, rfl⟩ := mk_shape hcM hmsgs
+  exact ⟨hvM, ciM, fM, rfl, hcM.idx⟩
+
+/-- the dates of a request -/
+def Req.dates : Req → List DT
+  | .stmt _ _ s e _ => s.toList ++ e.toList
+  | .ccStmt _ s e _ => s.toList ++ e.toList
+  | .invStmt _ s e a _ _ _ _ => s.toList ++ e.toList ++ a.toList
+  | .stmtEnd _ _ s e => s.toList ++ e.toList
+  | .ccStmtEnd _ s e => s.toList ++ e.toList
+
+/-- a transaction wrapper around a valid request aggregate is valid -/
+theorem trn_valid (hS : ReqWF S = true) (hW : WireWF S = true) (hcv : ConvOK cv Ptext)
+    (hinto : ConvInto cv S.enums Dom Ptext Pd) {name inner : String} {tbl : List (String × Shape)}
+    (hm : (name, tbl) ∈ reqTable) (h1 : ("trnuid", Shape.text) ∈ tbl) (h2 : (inner, Shape.sub) ∈ tbl)
+    (hn1 : name ≠ "SONRQ") (hn2 : name ≠ "OFX") (hn3 : name ≠ "TAX1099MSGSRQV1") {uuid : Str} (hu : Ptext uuid)
+    {cj : Nat} {f : List (Str × Node)} {i : List Node} (hidx : S.findIdx? (upper inner.toList) = some cj)
+    (hv : Valid S cv esc Dom (.agg cj f i)) {w : Node}
+    (h : mk S cv name [] [kv "trnuid" (sv uuid), kv inner (.agg cj f i)] = .ok w) :
+    Valid S cv esc Dom w ∧ ∃ ci f' c, w = .agg ci f' [] ∧ S.cls? ci = some c ∧ '.' ∉ c.name := by
+  obtain ⟨ci, c, hc⟩ := reqWF_cls hS hm
+  have hw := wireWF_cls hW hm hc
+  have ht := wireWF_triv hW hm hn1 hn2 hn3 hc
+  have hvw := mk_valid_triv hcv hinto hc hw ht
+    (forall_kw_cons (kwWire_sv hc (k := "trnuid") h1 hu)
+    (forall_kw_cons (kwWire_sub hw (k := inner) h2 hidx hv) (forall_kw_nil _))) (by simp) h
+  obtain ⟨f', rfl⟩ := mk_shape hc h
+  exact ⟨hvw, ci, f', c, rfl, hc.cls, hw.nodot⟩
+
+theorem bankacct_valid (hS : ReqWF S = true) (hW : WireWF S = true) (hcv : ConvOK cv Ptext)
+    (hinto : ConvInto cv S.enums Dom Ptext Pd) (cfg : Cfg) (acctid accttype : Option Str)
+    (hb : ∀ s, cfg.bankid = some s → Ptext s) (ha : ∀ s, acctid = some s → Ptext s)
+    (ht : ∀ s, accttype = some s → Ptext s) {n : Node}
+    (h : mk S cv "BANKACCTFROM" [] [kv "bankid" (osv cfg.bankid), kv "acctid" (osv acctid),
+      kv "accttype" (osv accttype)] = .ok n) :
+    ∃ ci f, n = .agg ci f [] ∧ S.findIdx? "BANKACCTFROM".toList = some ci ∧ Valid S cv esc Dom (.agg ci f []) := by
+  obtain ⟨ci, c, hc⟩ := reqWF_cls hS (name := "BANKACCTFROM") (tbl := tBANKACCT) (by simp [reqTable])
+  have hw := wireWF_cls hW (by simp [reqTable]) hc
+  have htr := wireWF_triv hW (name := "BANKACCTFROM") (by simp [reqTable]) (by decide) (by decide) (by decide) hc
+  have hv := mk_valid_triv (esc := esc) hcv hinto hc hw htr
+    (forall_kw_cons (kwWire_osv hc (k := "bankid") (by simp) hb)
+    (forall_kw_cons (kwWire_osv hc (k := "acctid") (by simp) ha)
+    (forall_kw_cons (kwWire_osv hc (k := "accttype") (by simp) ht) (forall_kw_nil _)))) (by simp) h
+  obtain ⟨f, rfl⟩ := mk_shape hc h
+  exact ⟨ci, f, rfl, hc.idx, hv⟩
+
+theorem ccacct_valid (hS : ReqWF S = true) (hW : WireWF S = true) (hcv : ConvOK cv Ptext)
+    (hinto : ConvInto cv S.enums Dom Ptext Pd) (acctid : Option Str)
+    (ha : ∀ s, acctid = some s → Ptext s) {n : Node}
+    (h : mk S cv "CCACCTFROM" [] [kv "acctid" (osv acctid)] = .ok n) :
+    ∃ ci f, n = .agg ci f [] ∧ S.findIdx? "CCACCTFROM".toList = some ci ∧ Valid S cv esc Dom (.agg ci f []) := by
+  obtain ⟨ci, c, hc⟩ := reqWF_cls hS (name := "CCACCTFROM") (tbl := tCCACCT) (by simp [reqTable])
+  have hw := wireWF_cls hW (by simp [reqTable]) hc
+  have htr := wireWF_triv hW (name := "CCACCTFROM") (by simp [reqTable]) (by decide) (by decide) (by decide) hc
+  have hv := mk_valid_triv (esc := esc) hcv hinto hc hw htr
+    (forall_kw_cons (kwWire_osv hc (k := "acctid") (by simp) ha) (forall_kw_nil _)) (by simp) h
+  obtain ⟨f, rfl⟩ := mk_shape hc h
+  exact ⟨ci, f, rfl, hc.idx, hv⟩
+
+theorem inctran_valid (hS : ReqWF S = true) (hW : WireWF S = true) (hcv : ConvOK cv Ptext)
+    (hinto : ConvInto cv S.enums Dom Ptext Pd) (dtstart dtend : Option DT) (inctran : Option Bool)
+    (h1 : ∀ d, dtstart = some d → Pd d) (h2 : ∀ d, dtend = some d → Pd d) {n : Node}
+    (h : mk S cv "INCTRAN" [] [kv "dtstart" (odt dtstart), kv "dtend" (odt dtend), kv "include" (obv inctran)]
+      = .ok n) :
+    ∃ ci f, n = .agg ci f [] ∧ S.findIdx? "INCTRAN".toList = some ci ∧ Valid S cv esc Dom (.agg ci f []) := by
+  obtain ⟨ci, c, hc⟩ := reqWF_cls hS (name := "INCTRAN") (tbl := tINCTRAN) (by simp [reqTable])
+  have hw := wireWF_cls hW (by simp [reqTable]) hc
+  have htr := wireWF_triv hW (name := "INCTRAN") (by simp [reqTable]) (by decide) (by decide) (by decide) hc
+  have hv := mk_valid_triv (esc := esc) hcv hinto hc hw htr
+    (forall_kw_cons (kwWire_odt hc (k := "dtstart") (by simp) h1)
+    (forall_kw_cons (kwWire_odt hc (k := "dtend") (by simp) h2)
+    (forall_kw_cons (kwWire_obv hc (k := "include") (by simp) inctran) (forall_kw_nil _)))) (by simp) h
+  obtain ⟨f, rfl⟩ := mk_shape hc h
+  exact ⟨ci, f, rfl, hc.idx, hv⟩
+
+/-- every wrapper `wrap` builds is a `Valid` instance of an existing class -/
+theorem wrap_valid (hS : ReqWF S = true) (hW : WireWF S = true) (hcv : ConvOK cv Ptext)
+    (hinto : ConvInto cv S.enums Dom Ptext Pd) (cfg : Cfg) (rq : Req) (uuid : Str)
+    (htexts : ∀ s ∈ cfg.texts, Ptext s) (hrq : ∀ s ∈ rq.texts, Ptext s) (hrd : ∀ d ∈ rq.dates, Pd d)
+    (hu : Ptext uuid) {w : Node} (h : wrap S cv cfg rq uuid = .ok w) :
+    Valid S cv esc Dom w ∧ ∃ ci f c, w = .agg ci f [] ∧ S.cls? ci = some c ∧ '.' ∉ c.name := by
+  simp only [Cfg.texts, List.mem_append, List.mem_cons, Option.mem_toList, List.mem_nil_iff, or_false] at htexts
+  have hbank : ∀ s, cfg.bankid = some s → Ptext s := fun s hs => htexts s (by simp [hs])
+  have hbroker : ∀ s, cfg.brokerid = some s → Ptext s := fun s hs => htexts s (by simp [hs])
+  cases rq with
+  | stmt acctid accttype dtstart dtend inctran =>
+    simp only [Req.texts, List.mem_append, Option.mem_toList] at hrq
+    simp only [Req.dates, List.mem_append, Option.mem_toList] at hrd
+    simp only [wrap, stmttrnrq] at h
+    obtain ⟨acct, hacct, h1⟩ := bind_ok h
+    obtain ⟨inc, hinc, h2⟩ := bind_ok h1
+    obtain ⟨rq, hrq', htrn⟩ := bind_ok h2
+    clear h h1 h2
+    obtain ⟨cia, fa, rfl, hia, hva⟩ := bankacct_valid (esc := esc) hS hW hcv hinto cfg acctid accttype hbank
+      (fun s hs => hrq s (Or.inl hs)) (fun s hs => hrq s (Or.inr hs)) hacct
+    obtain ⟨cii, fi, rfl, hii, hvi⟩ := inctran_valid (esc := esc) hS hW hcv hinto dtstart dtend inctran
+      (fun d hd => hrd d (Or.inl hd)) (fun d hd => hrd d (Or.inr hd)) hinc
+    obtain ⟨ci, c, hc⟩ := reqWF_cls hS (name := "STMTRQ") (tbl := tSTMTRQ) (by simp [reqTable])
+    have hw := wireWF_cls hW (by simp [reqTable]) hc
+    have htr := wireWF_triv hW (name := "STMTRQ") (by simp [reqTable]) (by decide) (by decide) (by decide) hc
+    have hv := mk_valid_triv (esc := esc) hcv hinto hc hw htr
+      (forall_kw_cons (kwWire_sub hw (k := "bankacctfrom") (by simp)
+        (by rw [show upper "bankacctfrom".toList = "BANKACCTFROM".toList from by decide]; exact hia) hva)
+      (forall_kw_cons (kwWire_sub hw (k := "inctran") (by simp)
+        (by rw [show upper "inctran".toList = "INCTRAN".toList from by decide]; exact hii) hvi)
+      (forall_kw_nil _))) (by simp) hrq'
+    obtain ⟨f, rfl⟩ := mk_shape hc hrq'
+    exact trn_valid hS hW hcv hinto (name := "STMTTRNRQ") (inner := "stmtrq") (tbl := tSTMTTRNRQ)
+      (by simp [reqTable]) (by simp) (by simp) (by decide) (by decide) (by decide) hu
+      (by rw [show upper "stmtrq".toList = "STMTRQ".toList from by decide]; exact hc.idx) hv htrn
+  | stmtEnd acctid accttype dtstart dtend =>
+    simp only [Req.texts, List.mem_append, Option.mem_toList] at hrq
+    simp only [Req.dates, List.mem_append, Option.mem_toList] at hrd
+    simp only [wrap, stmtendtrnrq] at h
+    obtain ⟨acct, hacct, h1⟩ := bind_ok h
+    obtain ⟨rq, hrq', htrn⟩ := bind_ok h1
+    clear h h1
+    obtain ⟨cia, fa, rfl, hia, hva⟩ := bankacct_valid (esc := esc) hS hW hcv hinto cfg acctid accttype hbank
+      (fun s hs => hrq s (Or.inl hs)) (fun s hs => hrq s (Or.inr hs)) hacct
+    obtain ⟨ci, c, hc⟩ := reqWF_cls hS (name := "STMTENDRQ") (tbl := tSTMTENDRQ) (by simp [reqTable])
+    have hw := wireWF_cls hW (by simp [reqTable]) hc
+    have htr := wireWF_triv hW (name := "STMTENDRQ") (by simp [reqTable]) (by decide) (by decide) (by decide) hc
+    have hv := mk_valid_triv (esc := esc) hcv hinto hc hw htr
+      (forall_kw_cons (kwWire_sub hw (k := "bankacctfrom") (by simp)
+        (by rw [show upper "bankacctfrom".toList = "BANKACCTFROM".toList from by decide]; exact hia) hva)
+      (forall_kw_cons (kwWire_odt hc (k := "dtstart") (by simp) (fun d hd => hrd d (Or.inl hd)))
+      (forall_kw_cons (kwWire_odt hc (k := "dtend") (by simp) (fun d hd => hrd d (Or.inr hd)))
+      (forall_kw_nil _)))) (by simp) hrq'
+    obtain ⟨f, rfl⟩ := mk_shape hc hrq'
+    exact trn_valid hS hW hcv hinto (name := "STMTENDTRNRQ") (inner := "stmtendrq") (tbl := tSTMTENDTRNRQ)
+      (by simp [reqTable]) (by simp) (by simp) (by decide) (by decide) (by decide) hu
+      (by rw [show upper "stmtendrq".toList = "STMTENDRQ".toList from by decide]; exact hc.idx) hv htrn
+  | ccStmt acctid dtstart dtend inctran =>
+    simp only [Req.texts, Option.mem_toList] at hrq
+    simp only [Req.dates, List.mem_append, Option.mem_toList] at hrd
+    simp only [wrap, ccstmttrnrq] at h
+    obtain ⟨acct, hacct, h1⟩ := bind_ok h
+    obtain ⟨inc, hinc, h2⟩ := bind_ok h1
+    obtain ⟨rq, hrq', htrn⟩ := bind_ok h2
+    clear h h1 h2
+    obtain ⟨cia, fa, rfl, hia, hva⟩ := ccacct_valid (esc := esc) hS hW hcv hinto acctid (fun s hs => hrq s hs) hacct
+    obtain ⟨cii, fi, rfl, hii, hvi⟩ := inctran_valid (esc := esc) hS hW hcv hinto dtstart dtend inctran
+      (fun d hd => hrd d (Or.inl hd)) (fun d hd => hrd d (Or.inr hd)) hinc
+    obtain ⟨ci, c, hc⟩ := reqWF_cls hS (name := "CCSTMTRQ") (tbl := tCCSTMTRQ) (by simp [reqTable])
+    have hw := wireWF_cls hW (by simp [reqTable]) hc
+    have htr := wireWF_triv hW (name := "CCSTMTRQ") (by simp [reqTable]) (by decide) (by decide) (by decide) hc
+    have hv := mk_valid_triv (esc := esc) hcv hinto hc hw htr
+      (forall_kw_cons (kwWire_sub hw (k := "ccacctfrom") (by simp)
+        (by rw [show upper "ccacctfrom".toList = "CCACCTFROM".toList from by decide]; exact hia) hva)
+      (forall_kw_cons (kwWire_sub hw (k := "inctran") (by simp)
+        (by rw [show upper "inctran".toList = "INCTRAN".toList from by decide]; exact hii) hvi)
+      (forall_kw_nil _))) (by simp) hrq'
+    obtain ⟨f, rfl⟩ := mk_shape hc hrq'
+    exact trn_valid hS hW hcv hinto (name := "CCSTMTTRNRQ") (inner := "ccstmtrq") (tbl := tCCSTMTTRNRQ)
+      (by simp [reqTable]) (by simp) (by simp) (by decide) (by decide) (by decide) hu
+      (by rw [show upper "ccstmtrq".toList = "CCSTMTRQ".toList from by decide]; exact hc.idx) hv htrn
+  | ccStmtEnd acctid dtstart dtend =>
+    simp only [Req.texts, Option.mem_toList] at hrq
+    simp only [Req.dates, List.mem_append, Option.mem_toList] at hrd
+    simp only [wrap, ccstmtendtrnrq] at h
+    obtain ⟨acct, hacct, h1⟩ := bind_ok h
+    obtain ⟨rq, hrq', htrn⟩ := bind_ok h1
+    clear h h1
+    obtain ⟨cia, fa, rfl, hia, hva⟩ := ccacct_valid (esc := esc) hS hW hcv hinto acctid (fun s hs => hrq s hs) hacct
+    obtain ⟨ci, c, hc⟩ := reqWF_cls hS (name := "CCSTMTENDRQ") (tbl := tCCSTMTENDRQ) (by simp [reqTable])
+    have hw := wireWF_cls hW (by simp [reqTable]) hc
+    have htr := wireWF_triv hW (name := "CCSTMTENDRQ") (by simp [reqTable]) (by decide) (by decide) (by decide) hc
+    have hv := mk_valid_triv (esc := esc) hcv hinto hc hw htr
+      (forall_kw_cons (kwWire_sub hw (k := "ccacctfrom") (by simp)
+        (by rw [show upper "ccacctfrom".toList = "CCACCTFROM".toList from by decide]; exact hia) hva)
+      (forall_kw_cons (kwWire_odt hc (k := "dtstart") (by simp) (fun d hd => hrd d (Or.inl hd)))
+      (forall_kw_cons (kwWire_odt hc (k := "dtend") (by simp) (fun d hd => hrd d (Or.inr hd)))
+      (forall_kw_nil _)))) (by simp) hrq'
+    obtain ⟨f, rfl⟩ := mk_shape hc hrq'
+    exact trn_valid hS hW hcv hinto (name := "CCSTMTENDTRNRQ") (inner := "ccstmtendrq") (tbl := tCCSTMTENDTRNRQ)
+      (by simp [reqTable]) (by simp) (by simp) (by decide) (by decide) (by decide) hu
+      (by rw [show upper "ccstmtendrq".toList = "CCSTMTENDRQ".toList from by decide]; exact hc.idx) hv htrn
+  | invStmt acctid dtstart dtend dtasof inctran incoo incpos incbal =>
+    simp only [Req.texts, Option.mem_toList] at hrq
+    simp only [Req.dates, List.mem_append, Option.mem_toList] at hrd
+    simp only [wrap, invstmttrnrq] at h
+    obtain ⟨acct, hacct, h1⟩ := bind_ok h
+    obtain ⟨inc, hinc, h2⟩ := bind_ok h1
+    obtain ⟨pos, hpos, h3⟩ := bind_ok h2
+    obtain ⟨rq, hrq', htrn⟩ := bind_ok h3
+    clear h h1 h2 h3
+    -- INVACCTFROM
+    obtain ⟨cia, ca, hca⟩ := reqWF_cls hS (name := "INVACCTFROM") (tbl := tINVACCT) (by simp [reqTable])
+    have hwa := wireWF_cls hW (by simp [reqTable]) hca
+    have hta := wireWF_triv hW (name := "INVACCTFROM") (by simp [reqTable]) (by decide) (by decide) (by decide) hca
+    have hva := mk_valid_triv (esc := esc) hcv hinto hca hwa hta
+      (forall_kw_cons (kwWire_osv hca (k := "acctid") (by simp) (fun s hs => hrq s hs))
+      (forall_kw_cons (kwWire_osv hca (k := "brokerid") (by simp) hbroker) (forall_kw_nil _))) (by simp) hacct
+    obtain ⟨fa, rfl⟩ := mk_shape hca hacct
+    -- INCPOS
+    obtain ⟨cip, cp, hcp⟩ := reqWF_cls hS (name := "INCPOS") (tbl := tINCPOS) (by simp [reqTable])
+    have hwp := wireWF_cls hW (by simp [reqTable]) hcp
+    have htp := wireWF_triv hW (name := "INCPOS") (by simp [reqTable]) (by decide) (by decide) (by decide) hcp
+    have hvp := mk_valid_triv (esc := esc) hcv hinto hcp hwp htp
+      (forall_kw_cons (kwWire_odt hcp (k := "dtasof") (by simp) (fun d hd => hrd d (Or.inr hd)))
+      (forall_kw_cons (kwWire_obv hcp (k := "include") (by simp) incpos) (forall_kw_nil _))) (by simp) hpos
+    obtain ⟨fp, rfl⟩ := mk_shape hcp hpos
+    -- INVSTMTRQ
+    obtain ⟨ci, c, hc⟩ := reqWF_cls hS (name := "INVSTMTRQ") (tbl := tINVSTMTRQ) (by simp [reqTable])
+    have hw := wireWF_cls hW (by simp [reqTable]) hc
+    have htr := wireWF_triv hW (name := "INVSTMTRQ") (by simp [reqTable]) (by decide) (by decide) (by decide) hc
+    have hincW : KwWire S cv esc Dom c Ptext Pd (kv "inctran" inc) := by
+      rw [invInctran] at hinc
+      by_cases hf : flagSet inctran = true
+      · rw [if_pos hf] at hinc
+        obtain ⟨cii, fi, rfl, hii, hvi⟩ := inctran_valid (esc := esc) hS hW hcv hinto dtstart dtend inctran
+          (fun d hd => hrd d (Or.inl (Or.inl hd))) (fun d hd => hrd d (Or.inl (Or.inr hd))) hinc
+        exact kwWire_sub hw (k := "inctran") (by simp)
+          (by rw [show upper "inctran".toList = "INCTRAN".toList from by decide]; exact hii) hvi
+      · rw [if_neg hf] at hinc
+        simp only [pure, Except.pure, Except.ok.injEq] at hinc
+        subst hinc
+        exact kwWire_none _
+    have hv := mk_valid_triv (esc := esc) hcv hinto hc hw htr
+      (forall_kw_cons (kwWire_sub hw (k := "invacctfrom") (by simp)
+        (by rw [show upper "invacctfrom".toList = "INVACCTFROM".toList from by decide]; exact hca.idx) hva)
+      (forall_kw_cons hincW
+      (forall_kw_cons (kwWire_obv hc (k := "incoo") (by simp) incoo)
+      (forall_kw_cons (kwWire_sub hw (k := "incpos") (by simp)
+        (by rw [show upper "incpos".toList = "INCPOS".toList from by decide]; exact hcp.idx) hvp)
+      (forall_kw_cons (kwWire_obv hc (k := "incbal") (by simp) incbal)
+      (forall_kw_nil _)))))) (by simp) hrq'
+    obtain ⟨f, rfl⟩ := mk_shape hc hrq'
+    exact trn_valid hS hW hcv hinto (name := "INVSTMTTRNRQ") (inner := "invstmtrq") (tbl := tINVSTMTTRNRQ)
+      (by simp [reqTable]) (by simp) (by simp) (by decide) (by decide) (by decide) hu
+      (by rw [show upper "invstmtrq".toList = "INVSTMTRQ".toList from by decide]; exact hc.idx) hv htrn
+
+theorem lookup_none_of_not_key {α : Type} {k : Str} : ∀ {l : List (Str × α)}, (∀ e ∈ l, e.1 ≠ k) → lookup k l = none
+  | [], _ => rfl
+  | (k', v) :: r, h => by
+    have h1 : k' ≠ k := h (k', v) (by simp)
+    simp only [lookup, h1, if_false]
+    exact lookup_none_of_not_key (fun e he => h e (List.mem_cons_of_mem _ he))
+
+theorem lookup_some_key {α : Type} {k : Str} {l : List (Str × α)} {v : α} (h : lookup k l = some v) :
+    k ∈ l.map (·.1) := List.mem_map.mpr ⟨(k, v), lookup_mem h, rfl⟩
+
+theorem key_lookup_some {α : Type} {k : Str} : ∀ {l : List (Str × α)}, k ∈ l.map (·.1) → ∃ v, lookup k l = some v
+  | [], h => by simp at h
+  | (k', v) :: r, h => by
+    by_cases hk : k' = k
+    · exact ⟨v, by simp [lookup, hk]⟩
+    · simp only [List.map_cons, List.mem_cons] at h
+      rcases h with h | h
+      · exact absurd h.symm hk
+      · obtain ⟨w, hw⟩ := key_lookup_some h
+        exact ⟨w, by simp [lookup, hk, hw]⟩
+
+theorem allEqual_of_forall {α : Type} [DecidableEq α] (x : α) : ∀ (l : List α), (∀ y ∈ l, y = x) → allEqual l = true
+  | [], _ => rfl
+  | a :: l, h => by
+    simp only [allEqual, List.all_eq_true, decide_eq_true_eq]
+    intro y hy
+    rw [h y (List.mem_cons_of_mem _ hy), h a (by simp)]
+
+/-- `validate_args` of `OFX` accepts the written-back keywords of a request: every keyword is a `…MSGSRQV1` one and
+    exactly the request sign-on is present -/
+theorem ofx_validate (hcv : ConvOK cv Ptext) {tbl : List (String × Shape)} {ci : Nat} {c : Cls}
+    (hc : ClsFits S "OFX" tbl ci c) (hsq : ("signonmsgsrqv1", Shape.sub) ∈ tbl) (hwf : ClsWF S c)
+    (hx : c.extra = .ofx ∧ c.optMutex = [] ∧ c.reqMutex = [["signonmsgsrqv1".toList, "signonmsgsrsv1".toList]])
+    {kw : List (Str × Node)} {cis : Nat} {fs : List (Str × Node)}
+    (hso : lookup "signonmsgsrqv1".toList kw = some (.agg cis fs []))
+    (hkeys : ∀ k ∈ kw.map (·.1), k ∈ ["signonmsgsrqv1", "bankmsgsrqv1", "creditcardmsgsrqv1",
+      "invstmtmsgsrqv1"].map String.toList)
+    (hkwfit : ∀ p ∈ kw, KwFit c Ptext p)
+    {fields : List (Str × Node)} (hs : setAttrs S cv (specNoList c) kw = .ok fields) :
+    validateArgs S c [] (rawKwOf S cv esc fields c.spec) = .ok () := by
+  -- a written-back keyword was passed
+  have hpassed : ∀ k r, lookup k (rawKwOf S cv esc fields c.spec) = some r → k ∈ kw.map (·.1) := by
+    intro k r hr
+    obtain ⟨a, _, hn, v, hv, hrf⟩ := rawKwOf_lookup_some fields c.spec k r hr
+    cases hl : lookup k kw with
+    | some w => exact lookup_some_key hl
+    | none =>
+      rw [hn] at hv
+      have := stored_absent hcv hl hs v hv
+      rw [this, rawField_none] at hrf
+      cases hrf
+  -- extra rule: all keys end alike
+  have hall : allEqual ((rawKwOf S cv esc fields c.spec).map (fun p => lastN 7 p.1)) = true := by
+    apply allEqual_of_forall "sgsrqv1".toList
+    intro y hy
+    obtain ⟨p, hp, rfl⟩ := List.mem_map.mp hy
+    obtain ⟨r, hr⟩ := key_lookup_some (List.mem_map.mpr ⟨p, hp, rfl⟩)
+    have hk := hkeys _ (hpassed _ _ hr)
+    simp only [List.map_cons, List.map_nil, List.mem_cons, List.mem_nil_iff, or_false] at hk
+    rcases hk with h | h | h | h <;> rw [h] <;> decide
+  -- the request sign-on is written back, the response sign-on is not
+  obtain ⟨a, ha, hn, hsh⟩ := hc.attrs _ _ hsq
+  obtain ⟨r, hr, hl⟩ := setAttrs_lookup (specNoList c) kw fields hs hc.nodup a ha
+  have hkv : kwval kw a.name = .agg cis fs [] := by unfold kwval; rw [hn, hso]; rfl
+  rw [hkv] at hr
+  have hrv := setAttr_faithful hcv a .sub _ r hsh (by simp [Shape.fits]) hr
+  subst hrv
+  have hnl : a.kind.isList = false := by cases hka : a.kind <;> simp_all [Kind.isList, Shape.ofKind]
+  have hnu : a.kind.isUnsupported = false := by cases hka : a.kind <;> simp_all [Kind.isUnsupported, Shape.ofKind]
+  have hq := lookup_rawKwOf S cv esc fields c.spec hwf.nodup a (List.mem_filter.mp ha).1 hnl hnu _ hl
+  rw [hn] at hq
+  have hq' : lookup "signonmsgsrqv1".toList (rawKwOf S cv esc fields c.spec) = some (.agg cis fs []) := by
+    rw [hq]; rfl
+  have hrs : lookup "signonmsgsrsv1".toList (rawKwOf S cv esc fields c.spec) = none := by
+    apply rawKw_absent
+    apply stored_absent hcv _ hs
+    cases hl2 : lookup "signonmsgsrsv1".toList kw with
+    | none => rfl
+    | some w =>
+      have := hkeys _ (lookup_some_key hl2)
+      simp only [List.map_cons, List.map_nil, List.mem_cons, List.mem_nil_iff, or_false] at this
+      rcases this with h | h | h | h <;> exact absurd h (by decide)
+  have hcount : mutexCount (rawKwOf S cv esc fields c.spec)
+      ["signonmsgsrqv1".toList, "signonmsgsrsv1".toList] = 1 := by
+    simp only [mutexCount, List.filter, hq', hrs, notNone, List.length]
+  simp only [validateArgs, hx.1, hx.2.1, hx.2.2, extraRule, hall, enforceCount, bind, Except.bind, if_true,
+    List.all_nil, List.all_cons, hcount, decide_true, Bool.and_self]
+
+/-- **the composed statement request is a `Valid` instance** (all the way down) -/
+theorem requestStatements_valid (hS : ReqWF S = true) (hW : WireWF S = true) (hcv : ConvOK cv Ptext)
+    (hinto : ConvInto cv S.enums Dom Ptext Pd) (laws : ConvLaws cv S.enums esc Dom) (cfg : Cfg) (pw : Str)
+    (reqs : List Req) (us : Nat → Str) (dtc : DT)
+    (htexts : ∀ s ∈ cfg.texts, Ptext s) (hpw : Ptext pw) (hreqs : ∀ r ∈ reqs, ∀ s ∈ r.texts, Ptext s)
+    (hdates : ∀ r ∈ reqs, ∀ d ∈ r.dates, Pd d) (hdt : Pd dtc) (huP : ∀ i, Ptext (us i)) {root : Node}
+    (h : requestStatements S cv cfg pw reqs us dtc = .ok root) : Valid S cv esc Dom root := by
+  simp only [requestStatements] at h
+  obtain ⟨trnrqs, htr, h1⟩ := bind_ok h
+  obtain ⟨msgs, hmsgs, h2⟩ := bind_ok h1
+  obtain ⟨so, hso, hroot⟩ := bind_ok h2
+  clear h h1 h2
+  -- the wrappers
+  have hgroups := forall2_imp (mapM_forall2 htr) (fun g t hgt => wrapGroup_inv hgt)
+  have hrel : Rel2 (Rw S cv cfg us) (sortBy RKind.le Req.kind reqs).zipIdx (trnrqs.flatMap (·.2)) := by
+    have := forall2_flatMap (f := fun g : RKind × List (Req × Nat) => g.2) (g := fun t : MsgSet × List Node => t.2)
+      (forall2_imp hgroups (fun g t h => h.2))
+    rwa [groupBy_flatten] at this
+  have hwv : ∀ w ∈ trnrqs.flatMap (·.2), Valid S cv esc Dom w ∧
+      ∃ cj f i cjc, w = .agg cj f i ∧ S.cls? cj = some cjc ∧ '.' ∉ cjc.name := by
+    intro w hw
+    obtain ⟨p, hp, hpw'⟩ := rel2_mem_right hrel hw
+    have hmem : p.1 ∈ reqs := (mem_sortBy RKind.le Req.kind p.1 reqs).mp (zipIdx_mem_fst _ 0 p hp)
+    obtain ⟨hv, ci, f, c, rfl, hc, hd⟩ := wrap_valid (esc := esc) hS hW hcv hinto cfg p.1 (us p.2) htexts
+      (hreqs p.1 hmem) (hdates p.1 hmem) (huP _) hpw'
+    exact ⟨hv, ci, f, [], c, rfl, hc, hd⟩
+  -- the message sets
+  obtain ⟨_, hgrp2, _⟩ := group_sort MsgSet.le (fun t : MsgSet × List Node => t.1) msgset_order trnrqs
+  have hmsgs' := forall2_imp (mapM_forall2 hmsgs) (fun g e hge => msgArgs_inv hge)
+  obtain ⟨ciO, cO, hcO⟩ := reqWF_cls hS (name := "OFX") (tbl := tOFX) (by simp [reqTable])
+  have hwO := wireWF_cls hW (by simp [reqTable]) hcO
+  have hxO := wireWF_ofx hW hcO
+  have hmsgW : ∀ e ∈ msgs, KwWire S cv esc Dom cO Ptext Pd e ∧
+      e.1 ∈ ["bankmsgsrqv1", "creditcardmsgsrqv1", "invstmtmsgsrqv1"].map String.toList := by
+    intro e he
+    obtain ⟨g, hg, inst, rfl, hmk⟩ := rel2_mem_right hmsgs' he
+    obtain ⟨_, hgeq⟩ := hgrp2 g.1 g.2 hg
+    have hsub : ∀ w ∈ g.2.flatMap (·.2), w ∈ trnrqs.flatMap (·.2) := by
+      intro w hw
+      obtain ⟨t, ht, hwt⟩ := List.mem_flatMap.mp hw
+      rw [hgeq] at ht
+      exact List.mem_flatMap.mpr ⟨t, (List.mem_filter.mp ht).1, hwt⟩
+    have hcls : ∃ ciM cM, ClsFits S g.1.className tMSGS ciM cM ∧ WireCls S tMSGS ciM cM ∧
+        (cM.extra = .none ∧ cM.optMutex = [] ∧ cM.reqMutex = []) := by
+      cases g.1
+      · obtain ⟨ciM, cM, hcM⟩ := reqWF_cls hS (name := "BANKMSGSRQV1") (tbl := tMSGS) (by simp [reqTable])
+        exact ⟨ciM, cM, hcM, wireWF_cls hW (by simp [reqTable]) hcM,
+          wireWF_triv hW (name := "BANKMSGSRQV1") (by simp [reqTable]) (by decide) (by decide) (by decide) hcM⟩
+      · obtain ⟨ciM, cM, hcM⟩ := reqWF_cls hS (name := "CREDITCARDMSGSRQV1") (tbl := tMSGS) (by simp [reqTable])
+        exact ⟨ciM, cM, hcM, wireWF_cls hW (by simp [reqTable]) hcM,
+          wireWF_triv hW (name := "CREDITCARDMSGSRQV1") (by simp [reqTable]) (by decide) (by decide) (by decide) hcM⟩
+      · obtain ⟨ciM, cM, hcM⟩ := reqWF_cls hS (name := "INVSTMTMSGSRQV1") (tbl := tMSGS) (by simp [reqTable])
+        exact ⟨ciM, cM, hcM, wireWF_cls hW (by simp [reqTable]) hcM,
+          wireWF_triv hW (name := "INVSTMTMSGSRQV1") (by simp [reqTable]) (by decide) (by decide) (by decide) hcM⟩
+    obtain ⟨ciM, cM, hcM, hwM, htM⟩ := hcls
+    have hvM := mk_valid_triv (esc := esc) hcv hinto hcM hwM htM (forall_kw_nil _)
+      (fun m hm => hwv m (hsub m hm)) hmk
+    obtain ⟨fM, rfl⟩ := mk_shape hcM hmk
+    refine ⟨?_, by cases g.1 <;> simp [kv, MsgSet.attrName]⟩
+    exact kwWire_sub hwO (k := g.1.attrName) (by cases g.1 <;> simp [MsgSet.attrName])
+      (by
+        have : upper g.1.attrName.toList = g.1.className.toList := by cases g.1 <;> decide
+        rw [this]; exact hcM.idx) hvM
+  -- the sign-on
+  obtain ⟨hvso, cis, fs, rfl, hsoidx⟩ := signon_valid (esc := esc) hS hW hcv hinto laws cfg pw none dtc htexts hpw
+    (by simp) hdt hso
+  -- the root
+  have hkwO : ∀ p ∈ kv "signonmsgsrqv1" (.agg cis fs []) :: msgs, KwWire S cv esc Dom cO Ptext Pd p :=
+    forall_kw_cons (kwWire_sub hwO (k := "signonmsgsrqv1") (by simp)
+      (by rw [show upper "signonmsgsrqv1".toList = "SIGNONMSGSRQV1".toList from by decide]; exact hsoidx) hvso)
+      (fun e he => (hmsgW e he).1)
+  apply mk_valid hcv hinto hcO hwO.plain hkwO (by simp) _ hroot
+  intro fields hsf
+  apply ofx_validate hcv hcO (by simp) hwO.plain.wf hxO (cis := cis) (fs := fs) _ _
+    (fun p hp => (hkwO p hp).fit) hsf
+  · simp [lookup, kv]
+  · intro k hk
+    simp only [List.map_cons, List.mem_cons] at hk
+    rcases hk with rfl | hk
+    · simp [kv]
+    · obtain ⟨e, he, rfl⟩ := List.mem_map.mp hk
+      have := (hmsgW e he).2
+      simp only [List.map_cons, List.map_nil, List.mem_cons, List.mem_nil_iff, or_false] at this ⊢
+      exact Or.inr this
+
+end
+section
+open Ofx.Types
+/-! ## Part 14: the real converters land in the wire domain -/
+
+/-- a caller text that survives the wire: no entity spelling, no surrounding white space -/
+def WireText (s : Str) : Prop := EntityFree s ∧ Spec.Wire.trimmedB s = true
+
+instance : DecidablePred WireText := fun s => inferInstanceAs (Decidable (EntityFree s ∧ Spec.Wire.trimmedB s = true))
+
+theorem ConvOK.mono {cv : Conv} {P Q : Str → Prop} (h : ConvOK cv P) (hpq : ∀ s, Q s → P s) : ConvOK cv Q where
+  none := h.none
+  text := fun enums k r s v' hk hq hc => h.text enums k r s v' hk (hpq s hq) hc
+  flag := h.flag
+  date := h.date
+
+theorem conv_ok_wire : ConvOK Types.conv WireText := conv_ok.mono (fun _ h => h.1)
+
+/-- enumeration members carry no markup and no surrounding white space -/
+def enumsPlainB (enums : List (List Str)) : Bool :=
+  enums.all (fun valid => valid.all (fun s => markupFree s && Spec.Wire.trimmedB s))
+
+theorem enforceRequired_none_false (r : Bool) (h : Types.enforceRequired r .none = .ok .none) : r = false := by
+  cases r <;> simp [Types.enforceRequired] at h ⊢
+
+theorem dtEnforceRequired_false (r : Bool) (h : DateTime.enforceRequired r = .ok .none) : r = false := by
+  cases r <;> simp [DateTime.enforceRequired] at h ⊢
+
+theorem types_convInto (enums : List (List Str)) (he : enumsPlainB enums = true) :
+    ConvInto Types.conv enums (typesDomWire enums) WireText DateTime.dtUtcMs where
+  req_none := by
+    intro k r hl hu hs h
+    cases k with
+    | bool => exact enforceRequired_none_false r (by simpa [Types.conv, Types.convert, Types.boolConvert] using h)
+    | string l st =>
+      exact enforceRequired_none_false r (by simpa [Types.conv, Types.convert, Types.stringConvert] using h)
+    | oneOf e =>
+      simp only [Types.conv, Types.convert] at h
+      split at h
+      · exact enforceRequired_none_false r (by simpa [Types.oneOfConvert] using h)
+      · simp at h
+    | integer l =>
+      exact enforceRequired_none_false r (by simpa [Types.conv, Types.convert, Types.integerConvert] using h)
+    | decimal q =>
+      exact enforceRequired_none_false r (by simpa [Types.conv, Types.convert, Types.decimalConvert] using h)
+    | datetime =>
+      exact dtEnforceRequired_false r
+        (by simpa [Types.conv, Types.convert, DateTime.dtConvert, DateTime.dtConvertWith] using h)
+    | time =>
+      exact dtEnforceRequired_false r
+        (by simpa [Types.conv, Types.convert, DateTime.tmConvert, DateTime.tmConvertWith] using h)
+    | listElem k ir => simp [Kind.isList] at hl
+    | sub c => simp [Kind.subTarget] at hs
+    | listAgg c => simp [Kind.isList] at hl
+    | unsupported => simp [Kind.isUnsupported] at hu
+  req_empty := by
+    intro k r hk h
+    cases k <;> simp [Shape.ofKind] at hk
+    · exact enforceRequired_none_false r (by simpa [Types.conv, Types.convert, Types.stringConvert] using h)
+    · simp only [Types.conv, Types.convert] at h
+      split at h
+      · exact enforceRequired_none_false r (by simpa [Types.oneOfConvert, Types.oneOfDefault] using h)
+      · simp at h
+  text := by
+    intro k r s hk hw hne h
+    cases k <;> simp [Shape.ofKind] at hk
+    · rename_i l st
+      refine ⟨⟨s, rfl, hne, ?_⟩, fun s' hs' => by injection hs' with hs'; subst hs'; exact hw.2⟩
+      simp only [Types.conv, Types.convert, Types.stringConvert, hne, if_false] at h
+      rw [hw.1, strEnforceLength_ok] at h
+      split at h
+      · assumption
+      · simp [Except.map] at h
+    · rename_i e
+      simp only [Types.conv, Types.convert] at h
+      split at h
+      · rename_i valid hv
+        simp only [Types.oneOfConvert, hne, if_false, Types.oneOfDefault] at h
+        split at h
+        · rename_i hmem
+          have hvm : valid ∈ enums := List.mem_of_getElem? hv
+          have := List.all_eq_true.mp (List.all_eq_true.mp he valid hvm) s hmem
+          simp only [Bool.and_eq_true] at this
+          exact ⟨⟨s, valid, rfl, hv, hmem, hne, this.1⟩,
+            fun s' hs' => by injection hs' with hs'; subst hs'; exact this.2⟩
+        · simp at h
+      · simp at h
+  flag := by
+    intro k r b hk
+    cases k <;> simp [Shape.ofKind] at hk
+    exact ⟨b, rfl⟩
+  date := by
+    intro k r d hk hd
+    cases k <;> simp [Shape.ofKind] at hk
+    exact ⟨d, rfl, hd⟩
+
+end
+
 /-! ## Part 9: the header carries the version asked for -/
 
 open Ofx.Header
